@@ -1196,3 +1196,1540 @@ Proof.
   unfold evict_ok, lru_evict. intros _ w a H. revert w H. induction cap as [|n IH]; intros [|x w]; simpl; try tauto.
   intros [->|H]; auto.
 Qed.
+
+(* ================= Part 3: the heap operations refine the pure ones ================= *)
+
+Definition all3 {A B C} (R : A -> B -> C -> Prop) :=
+  fix go (la : list A) (lb : list B) (lc : list C) {struct lb} : Prop :=
+    match la, lb, lc with
+    | [], [], [] => True
+    | a :: la', b :: lb', c :: lc' => R a b c /\ go la' lb' lc'
+    | _, _, _ => False
+    end.
+
+(* rep s a n fp: the node object at a represents the pure tree n; fp = the node and array addresses used *)
+Fixpoint rep (s : st) (a : addr) (n : node) (fp : list addr) {struct n} : Prop :=
+  match n with
+  | Node k r kids =>
+      exists o ch fps,
+        find_node s a = Some o /\ n_key o = k /\ n_route o = r /\
+        find_arr s (n_arr o) = Some ch /\
+        all3 (fun c kd f => rep s c kd f) ch kids fps /\
+        fp = a :: n_arr o :: List.concat fps
+  end.
+Definition reps (s : st) := all3 (fun c kd f => rep s c kd f).
+
+Lemma node_ind2 (P : node -> Prop) :
+  (forall k r kids, Forall P kids -> P (Node k r kids)) -> forall n, P n.
+Proof. intros H. fix IH 1. intros [k r kids]. apply H. induction kids; constructor; auto. Qed.
+
+(* ---------- all3 ---------- *)
+Section All3.
+Context {A B C : Type}.
+Variable R : A -> B -> C -> Prop.
+
+Lemma all3_len la lb lc : all3 R la lb lc -> List.length la = List.length lb /\ List.length lc = List.length lb.
+Proof.
+  revert la lc. induction lb as [|b lb IH]; intros [|a la] [|c lc] H; simpl in *; try tauto.
+  destruct H as [_ H]. destruct (IH _ _ H). split; congruence.
+Qed.
+
+Lemma all3_nth la lb lc i b : all3 R la lb lc -> nth_error lb i = Some b ->
+  exists a c, nth_error la i = Some a /\ nth_error lc i = Some c /\ R a b c.
+Proof.
+  revert la lc i. induction lb as [|b0 lb IH]; intros [|a la] [|c lc] i H Hi; simpl in *; try tauto;
+    try (destruct i; discriminate).
+  destruct H as [H0 H]. destruct i as [|i]; simpl in *.
+  - inversion Hi; subst. eauto.
+  - eauto.
+Qed.
+
+Lemma all3_nth_a la lb lc i a : all3 R la lb lc -> nth_error la i = Some a ->
+  exists b c, nth_error lb i = Some b /\ nth_error lc i = Some c /\ R a b c.
+Proof.
+  revert la lc i. induction lb as [|b0 lb IH]; intros [|a0 la] [|c lc] i H Hi; simpl in *; try tauto;
+    try (destruct i; discriminate).
+  destruct H as [H0 H]. destruct i as [|i]; simpl in *.
+  - inversion Hi; subst. eauto.
+  - eauto.
+Qed.
+
+Lemma all3_set la lb lc i a b c : all3 R la lb lc -> R a b c ->
+  all3 R (set_nth la i a) (set_nth lb i b) (set_nth lc i c).
+Proof.
+  revert la lc i. induction lb as [|b0 lb IH]; intros [|a0 la] [|c0 lc] i H Hr; simpl in *; try tauto;
+    destruct i as [|i]; simpl; try tauto.
+  destruct H as [H0 H]. split; auto.
+Qed.
+
+Lemma all3_app la lb lc la' lb' lc' : all3 R la lb lc -> all3 R la' lb' lc' ->
+  all3 R (la ++ la') (lb ++ lb') (lc ++ lc').
+Proof.
+  revert la lc. induction lb as [|b0 lb IH]; intros [|a0 la] [|c0 lc] H H'; simpl in *; try tauto.
+  destruct H. split; auto.
+Qed.
+
+Lemma all3_del la lb lc i : all3 R la lb lc -> all3 R (del_nth la i) (del_nth lb i) (del_nth lc i).
+Proof.
+  revert la lc i. induction lb as [|b0 lb IH]; intros [|a0 la] [|c0 lc] i H; simpl in *; try tauto;
+    destruct i as [|i]; simpl; try tauto.
+  destruct H as [H0 H]. split; auto.
+Qed.
+End All3.
+
+Lemma all3_impl {A B C} (R R' : A -> B -> C -> Prop) la lb lc :
+  all3 R la lb lc -> (forall a b c, In a la -> In b lb -> In c lc -> R a b c -> R' a b c) -> all3 R' la lb lc.
+Proof.
+  revert la lc. induction lb as [|b0 lb IH]; intros [|a0 la] [|c0 lc] H Hi; simpl in *; try tauto.
+  destruct H as [H0 H]. split.
+  - apply Hi; auto.
+  - apply IH; auto; intros; apply Hi; simpl; auto.
+Qed.
+
+(* ---------- rep: unfolding, frame, bounds ---------- *)
+Lemma rep_unfold s a k r kids fp :
+  rep s a (Node k r kids) fp <->
+  exists o ch fps, find_node s a = Some o /\ n_key o = k /\ n_route o = r /\
+                   find_arr s (n_arr o) = Some ch /\ reps s ch kids fps /\ fp = a :: n_arr o :: List.concat fps.
+Proof. reflexivity. Qed.
+
+Definition same_at (s s' : st) (x : addr) : Prop := find_node s' x = find_node s x /\ find_arr s' x = find_arr s x.
+
+Lemma in_lconcat_nth {A} (l : list (list A)) x f i : nth_error l i = Some f -> In x f -> In x (List.concat l).
+Proof. intros H Hx. apply in_concat. exists f. split; auto. eapply nth_error_In; eauto. Qed.
+
+Lemma rep_frame s s' : forall n a fp, rep s a n fp -> (forall x, In x fp -> same_at s s' x) -> rep s' a n fp.
+Proof.
+  induction n as [k r kids IH] using node_ind2. intros a fp H Hs.
+  apply rep_unfold in H. destruct H as (o & ch & fps & Ho & Hk & Hr & Hch & Hkids & ->).
+  apply rep_unfold. exists o, ch, fps.
+  destruct (Hs a) as [E1 _]; [simpl; auto|].
+  destruct (Hs (n_arr o)) as [_ E2]; [simpl; auto|].
+  repeat split; try congruence.
+  assert (Hs' : forall x, In x (List.concat fps) -> same_at s s' x) by (intros x Hx; apply Hs; simpl; auto).
+  clear Hs Ho Hch E1 E2. unfold reps in *.
+  revert ch fps Hkids Hs'. induction IH as [|kd kids Hkd Hrest IHk]; intros [|c ch] [|f fps] Hkids Hs'; simpl in *; try tauto.
+  destruct Hkids as [H1 H2]. split.
+  - apply Hkd; auto. intros x Hx. apply Hs'. apply in_or_app. auto.
+  - apply IHk; auto. intros x Hx. apply Hs'. apply in_or_app. auto.
+Qed.
+
+Lemma reps_frame s s' ch kids fps : reps s ch kids fps -> (forall x, In x (List.concat fps) -> same_at s s' x) -> reps s' ch kids fps.
+Proof.
+  unfold reps. revert ch fps. induction kids as [|kd kids IH]; intros [|c ch] [|f fps] H Hs; simpl in *; try tauto.
+  destruct H as [H1 H2]. split.
+  - eapply rep_frame; eauto. intros x Hx. apply Hs. apply in_or_app. auto.
+  - apply IH; auto. intros x Hx. apply Hs. apply in_or_app. auto.
+Qed.
+
+Lemma rep_lt s : wf s -> forall n a fp, rep s a n fp -> Forall (V s) fp.
+Proof.
+  intros W. induction n as [k r kids IH] using node_ind2. intros a fp H.
+  apply rep_unfold in H. destruct H as (o & ch & fps & Ho & Hk & Hr & Hch & Hkids & ->).
+  destruct (wf_node _ W _ _ Ho) as [Va Varr]. constructor; auto. constructor; auto.
+  clear Ho Hch Va Varr. unfold reps in *.
+  revert ch fps Hkids. induction IH as [|kd kids Hkd Hrest IHk]; intros [|c ch] [|f fps] Hkids; simpl in *; try tauto; auto.
+  destruct Hkids as [H1 H2]. apply Forall_app. split; eauto.
+Qed.
+
+Lemma reps_lt s ch kids fps : wf s -> reps s ch kids fps -> Forall (V s) (List.concat fps).
+Proof.
+  intros W. unfold reps. revert ch fps. induction kids as [|kd kids IH]; intros [|c ch] [|f fps] H; simpl in *; try tauto; auto.
+  destruct H as [H1 H2]. apply Forall_app. split; eauto using rep_lt.
+Qed.
+
+Lemma rep_key s a n fp : rep s a n fp -> exists o, find_node s a = Some o /\ n_key o = nkey n /\ n_route o = nroute n.
+Proof. destruct n as [k r kids]. intros H. apply rep_unfold in H. destruct H as (o & ch & fps & Ho & Hk & Hr & _). eauto. Qed.
+
+Lemma rep_head s a n fp : rep s a n fp -> exists t, fp = a :: t.
+Proof. destruct n as [k r kids]. intros H. apply rep_unfold in H. destruct H as (o & ch & fps & _ & _ & _ & _ & _ & ->). eauto. Qed.
+
+(* ---------- reading keys and edges through rep ---------- *)
+Lemma keys_of_reps s ch kids fps : reps s ch kids fps -> keys_of ch s = Ok (map nkey kids, s).
+Proof.
+  unfold reps. revert ch fps. induction kids as [|kd kids IH]; intros [|c ch] [|f fps] H; simpl in *; try tauto.
+  destruct H as [H1 H2]. destruct (rep_key _ _ _ _ H1) as (o & Ho & Hk & _).
+  unfold bind, key_of, get_node, bind. unfold find_node in Ho. rewrite Ho. unfold ret. simpl.
+  rewrite (IH _ _ H2). rewrite Hk. reflexivity.
+Qed.
+
+Lemma find_idx_child i c kids : find_idx_from i c (map nkey kids) = find_child_from i c kids.
+Proof. revert i. induction kids as [|k kids IH]; intros i; simpl; auto. destruct (starts_with c (nkey k)); auto. Qed.
+
+(* ---------- list facts ---------- *)
+Lemma nth_set_nth_eq {A} (l : list A) i v x : nth_error l i = Some x -> nth_error (set_nth l i v) i = Some v.
+Proof. revert i. induction l as [|y l IH]; intros [|i] H; simpl in *; try discriminate; auto. Qed.
+Lemma nth_set_nth_ne {A} (l : list A) i k v : i <> k -> nth_error (set_nth l i v) k = nth_error l k.
+Proof. revert i k. induction l as [|y l IH]; intros [|i] [|k] H; simpl in *; auto; try congruence. Qed.
+Lemma set_nth_len {A} (l : list A) i v : List.length (set_nth l i v) = List.length l.
+Proof. revert i. induction l as [|y l IH]; intros [|i]; simpl; auto. Qed.
+Lemma set_nth_same {A} (l : list A) i x : nth_error l i = Some x -> set_nth l i x = l.
+Proof. revert i. induction l as [|y l IH]; intros [|i] H; simpl in *; try discriminate; auto.
+  - inversion H; auto. - f_equal; auto. Qed.
+Lemma set_nth_replace (l : list node) i v : set_nth l i v = replace_nth l i v.
+Proof. revert i. induction l as [|y l IH]; intros [|i]; simpl; auto. f_equal; auto. Qed.
+Lemma del_nth_remove (l : list node) i : del_nth l i = remove_nth l i.
+Proof. revert i. induction l as [|y l IH]; intros [|i]; simpl; auto. f_equal; auto. Qed.
+
+Lemma in_concat_set_nth {A} (l : list (list A)) j f' x :
+  In x (List.concat (set_nth l j f')) -> In x f' \/ In x (List.concat l).
+Proof.
+  revert j. induction l as [|g l IH]; intros [|j] Hx; simpl in *; try tauto.
+  - apply in_app_or in Hx. destruct Hx; auto. right. apply in_or_app. auto.
+  - apply in_app_or in Hx. destruct Hx as [Hx|Hx].
+    + right. apply in_or_app. auto.
+    + destruct (IH _ Hx); auto. right. apply in_or_app. auto.
+Qed.
+
+Lemma NoDup_app_inv {A} (l1 l2 : list A) : NoDup (l1 ++ l2) -> NoDup l1 /\ NoDup l2 /\ (forall x, In x l1 -> ~ In x l2).
+Proof.
+  induction l1 as [|a l1 IH]; simpl; intros H.
+  - split; [constructor|]. split; auto.
+  - inversion H; subst. destruct (IH H3) as (N1 & N2 & D). split.
+    + constructor; auto. intros Hi. apply H2. apply in_or_app. auto.
+    + split; auto. intros x [->|Hx]; auto. intros Hi. apply H2. apply in_or_app. auto.
+Qed.
+Lemma NoDup_app_intro {A} (l1 l2 : list A) : NoDup l1 -> NoDup l2 -> (forall x, In x l1 -> ~ In x l2) -> NoDup (l1 ++ l2).
+Proof.
+  induction l1 as [|a l1 IH]; simpl; intros N1 N2 D; auto.
+  inversion N1; subst. constructor.
+  - intros Hi. apply in_app_or in Hi. destruct Hi; auto. apply (D a); auto.
+  - apply IH; auto.
+Qed.
+
+(* replacing the j-th block by one made of elements of the old block and elements foreign to the whole list *)
+Lemma NoDup_concat_set_nth {A} (l : list (list A)) j f f' :
+  NoDup (List.concat l) -> nth_error l j = Some f -> NoDup f' ->
+  (forall x, In x f' -> In x f \/ ~ In x (List.concat l)) ->
+  NoDup (List.concat (set_nth l j f')).
+Proof.
+  revert j. induction l as [|g l IH]; intros [|j] N H N' S; simpl in *; try discriminate.
+  - inversion H; subst. apply NoDup_app_inv in N. destruct N as (N1 & N2 & D).
+    apply NoDup_app_intro; auto. intros x Hx Hl. destruct (S x Hx) as [Hf|Hn].
+    + apply (D x); auto.
+    + apply Hn. apply in_or_app. auto.
+  - apply NoDup_app_inv in N. destruct N as (N1 & N2 & D).
+    apply NoDup_app_intro; auto.
+    + apply IH; auto. intros x Hx. destruct (S x Hx) as [Hf|Hn]; auto.
+      right. intros Hi. apply Hn. apply in_or_app. auto.
+    + intros x Hg Hx. destruct (in_concat_set_nth _ _ _ _ Hx) as [Hf'|Hr].
+      * destruct (S x Hf') as [Hf|Hn].
+        -- apply (D x); auto. eapply in_lconcat_nth; eauto.
+        -- apply Hn. apply in_or_app. auto.
+      * apply (D x); auto.
+Qed.
+
+Lemma in_concat_set_nth_r {A} (l : list (list A)) j f' x k g :
+  k <> j -> nth_error l k = Some g -> In x g -> In x (List.concat (set_nth l j f')).
+Proof.
+  intros Hk Hg Hx. apply (in_lconcat_nth _ x g k); auto. rewrite nth_set_nth_ne; auto.
+Qed.
+
+(* distinct blocks of a duplicate-free concatenation are disjoint *)
+Lemma NoDup_concat_disj {A} (l : list (list A)) i j f g x :
+  NoDup (List.concat l) -> i <> j -> nth_error l i = Some f -> nth_error l j = Some g -> In x f -> ~ In x g.
+Proof.
+  revert i j. induction l as [|h l IH]; intros [|i] [|j] N Hij Hf Hg Hx; simpl in *; try discriminate; try congruence.
+  - inversion Hf; subst. apply NoDup_app_inv in N. destruct N as (_ & _ & D). intros Hi. apply (D x); auto.
+    eapply in_lconcat_nth; eauto.
+  - inversion Hg; subst. apply NoDup_app_inv in N. destruct N as (_ & _ & D). intros Hi. apply (D x); auto.
+    eapply in_lconcat_nth; eauto.
+  - apply NoDup_app_inv in N. destruct N as (_ & N2 & _). apply (IH i j); auto.
+Qed.
+Lemma NoDup_concat_nth {A} (l : list (list A)) i f : NoDup (List.concat l) -> nth_error l i = Some f -> NoDup f.
+Proof.
+  revert i. induction l as [|h l IH]; intros [|i] N Hf; simpl in *; try discriminate.
+  - inversion Hf; subst. apply NoDup_app_inv in N. tauto.
+  - apply NoDup_app_inv in N. destruct N as (_ & N2 & _). eauto.
+Qed.
+
+(* ---------- sorting: the in-place sort of newNode vs Node.sort_nodes ---------- *)
+From Coq Require Import Permutation.
+
+Lemma nat_N_ltb (x y : ascii) : Nat.ltb (nat_of_ascii x) (nat_of_ascii y) = N.ltb (N_of_ascii x) (N_of_ascii y).
+Proof.
+  unfold nat_of_ascii. destruct (N.ltb_spec (N_of_ascii x) (N_of_ascii y)) as [H|H];
+    destruct (Nat.ltb_spec (N.to_nat (N_of_ascii x)) (N.to_nat (N_of_ascii y))) as [H'|H']; auto; lia.
+Qed.
+
+Lemma key_ltb_eq a b : key_ltb a b = bytes_ltb a b.
+Proof.
+  revert b. induction a as [|x a IH]; intros [|y b]; simpl; auto.
+  rewrite !nat_N_ltb. destruct (N.ltb _ _); auto. destruct (N.ltb _ _); auto.
+Qed.
+
+Section SortAll3.
+Context {C : Type}.
+Variable R : addr -> node -> C -> Prop.
+
+(* insertion into three parallel lists, driven by the node keys *)
+Fixpoint ins3 (a : addr) (b : node) (c : list addr) (la : list addr) (lb : list node) (lc : list (list addr))
+  : list addr * list node * list (list addr) :=
+  match la, lb, lc with
+  | a0 :: la', b0 :: lb', c0 :: lc' =>
+      if bytes_ltb (nkey b0) (nkey b) then let '(x, y, z) := ins3 a b c la' lb' lc' in (a0 :: x, b0 :: y, c0 :: z)
+      else (a :: la, b :: lb, c :: lc)
+  | _, _, _ => ([a], [b], [c])
+  end.
+End SortAll3.
+
+Lemma snd_combine {A B} (la : list A) (lb : list B) : List.length la = List.length lb -> map snd (combine la lb) = lb.
+Proof. revert lb. induction la as [|a la IH]; intros [|b lb] H; simpl in *; try discriminate; auto. f_equal; auto. Qed.
+
+Lemma ins3_spec (R : addr -> node -> list addr -> Prop) a b c : forall la lb lc,
+  all3 R la lb lc -> R a b c ->
+  let '(x, y, z) := ins3 a b c la lb lc in
+  all3 R x y z /\ y = insert_sorted b lb /\
+  combine (map nkey y) x = ins_sorted (nkey b, a) (combine (map nkey lb) la) /\
+  Permutation (List.concat z) (c ++ List.concat lc).
+Proof.
+  intros la lb. revert la. induction lb as [|b0 lb IH]; intros [|a0 la] [|c0 lc] H Hr; simpl in *; try tauto.
+  - repeat split; auto.
+  - destruct H as [H0 H]. rewrite key_ltb_eq. destruct (bytes_ltb (nkey b0) (nkey b)) eqn:Hlt.
+    + specialize (IH la lc H Hr). destruct (ins3 a b c la lb lc) as [[x y] z].
+      destruct IH as (I1 & I2 & I3 & I4). simpl. repeat split; auto; try congruence.
+      rewrite I4. rewrite !app_assoc. apply Permutation_app_tail. apply Permutation_app_comm.
+    + simpl. repeat split; auto.
+Qed.
+
+Fixpoint sort3 (la : list addr) (lb : list node) (lc : list (list addr)) : list addr * list node * list (list addr) :=
+  match la, lb, lc with
+  | a :: la', b :: lb', c :: lc' => let '(x, y, z) := sort3 la' lb' lc' in ins3 a b c x y z
+  | _, _, _ => ([], [], [])
+  end.
+
+Lemma sort3_spec (R : addr -> node -> list addr -> Prop) : forall la lb lc,
+  all3 R la lb lc ->
+  let '(x, y, z) := sort3 la lb lc in
+  all3 R x y z /\ y = sort_nodes lb /\
+  combine (map nkey y) x = sort_pairs (combine (map nkey lb) la) /\
+  Permutation (List.concat z) (List.concat lc).
+Proof.
+  intros la lb. revert la. induction lb as [|b lb IH]; intros [|a la] [|c lc] H; simpl in *; try tauto.
+  - repeat split; auto.
+  - destruct H as [H0 H]. specialize (IH la lc H). destruct (sort3 la lb lc) as [[x y] z].
+    destruct IH as (I1 & I2 & I3 & I4).
+    pose proof (ins3_spec R a b c x y z I1 H0) as S. destruct (ins3 a b c x y z) as [[x' y'] z'].
+    destruct S as (S1 & S2 & S3 & S4). repeat split; auto.
+    + rewrite S2, I2. reflexivity.
+    + rewrite S3, I3. reflexivity.
+    + rewrite S4. apply Permutation_app_head. auto.
+Qed.
+
+(* the form used for newNode: the sorted address list, the sorted children, and a permuted footprint list *)
+Lemma sort_reps s la lb lc : reps s la lb lc ->
+  exists lc', reps s (map snd (sort_pairs (combine (map nkey lb) la))) (sort_nodes lb) lc' /\
+              Permutation (List.concat lc') (List.concat lc).
+Proof.
+  intros H. pose proof (sort3_spec _ la lb lc H) as S. destruct (sort3 la lb lc) as [[x y] z].
+  destruct S as (S1 & S2 & S3 & S4). exists z. subst y. split; auto.
+  rewrite <- S3. rewrite snd_combine; auto.
+  destruct (all3_len _ _ _ _ S1) as [L1 L2]. rewrite map_length. auto.
+Qed.
+
+(* ---------- exact effects of the primitives ---------- *)
+Definition meta_same (s s' : st) : Prop :=
+  s_root s' = s_root s /\ s_size s' = s_size s /\ s_maxp s' = s_maxp s /\ s_depth s' = s_depth s /\ s_cache s' = s_cache s.
+Definition heap_same (s s' : st) : Prop := s_nodes s' = s_nodes s /\ s_arrs s' = s_arrs s /\ s_next s' = s_next s.
+
+Lemma meta_same_refl s : meta_same s s. Proof. unfold meta_same. tauto. Qed.
+Lemma meta_same_trans s1 s2 s3 : meta_same s1 s2 -> meta_same s2 s3 -> meta_same s1 s3.
+Proof. unfold meta_same. intros (a&b&c&d&e) (a'&b'&c'&d'&e'). repeat split; congruence. Qed.
+
+Lemma heap_same_at s s' x : heap_same s s' -> same_at s s' x.
+Proof. intros (Hn & Ha & _). unfold same_at, find_node, find_arr. rewrite Hn, Ha. auto. Qed.
+
+(* writes are confined to W and to addresses allocated after s *)
+Definition frame (s s' : st) (W : list addr) : Prop :=
+  s_next s <= s_next s' /\ forall x, x < s_next s -> ~ In x W -> same_at s s' x.
+
+Lemma frame_refl s W : frame s s W.
+Proof. split; [lia|]. intros. split; auto. Qed.
+Lemma frame_heap_same s s' W : heap_same s s' -> frame s s' W.
+Proof. intros H. split; [destruct H as (_ & _ & ->); lia|]. intros. apply heap_same_at; auto. Qed.
+Lemma same_at_trans s1 s2 s3 x : same_at s1 s2 x -> same_at s2 s3 x -> same_at s1 s3 x.
+Proof. unfold same_at. intros [a b] [c d]. split; congruence. Qed.
+Lemma frame_trans s s1 s2 W W1 W2 :
+  frame s s1 W1 -> frame s1 s2 W2 ->
+  (forall x, x < s_next s -> In x W1 \/ In x W2 -> In x W) -> frame s s2 W.
+Proof.
+  intros [L1 F1] [L2 F2] S. split; [lia|]. intros x Lx Nx.
+  eapply same_at_trans; [apply F1|apply F2]; auto; try lia; intros Hi; apply Nx; apply S; auto.
+Qed.
+
+Lemma alloc_node_eff o s a s' : alloc_node o s = Ok (a, s') ->
+  a = s_next s /\ s_next s' = Pos.succ (s_next s) /\ find_node s' a = Some o /\
+  (forall x, x <> a -> find_node s' x = find_node s x) /\ (forall x, find_arr s' x = find_arr s x) /\ meta_same s s'.
+Proof.
+  unfold alloc_node. intros H. inversion H; subst; clear H. unfold find_node, find_arr, meta_same. simpl.
+  repeat split; auto. - apply pm_gss. - intros x Hx. apply pm_gso. auto.
+Qed.
+Lemma alloc_arr_eff l s a s' : alloc_arr l s = Ok (a, s') ->
+  a = s_next s /\ s_next s' = Pos.succ (s_next s) /\ find_arr s' a = Some l /\
+  (forall x, x <> a -> find_arr s' x = find_arr s x) /\ (forall x, find_node s' x = find_node s x) /\ meta_same s s'.
+Proof.
+  unfold alloc_arr. intros H. inversion H; subst; clear H. unfold find_node, find_arr, meta_same. simpl.
+  repeat split; auto. - apply pm_gss. - intros x Hx. apply pm_gso. auto.
+Qed.
+Lemma write_slot_eff a i v s u s' : write_slot a i v s = Ok (u, s') ->
+  exists l, find_arr s a = Some l /\ (i < List.length l)%nat /\ find_arr s' a = Some (set_nth l i v) /\
+  (forall x, x <> a -> find_arr s' x = find_arr s x) /\ (forall x, find_node s' x = find_node s x) /\
+  s_next s' = s_next s /\ meta_same s s'.
+Proof.
+  unfold write_slot. intros H. destruct (PM.find a (s_arrs s)) as [l|] eqn:Hl; [|discriminate].
+  destruct (Nat.ltb_spec i (List.length l)); [|discriminate]. inversion H; subst; clear H.
+  exists l. unfold find_node, find_arr, meta_same. simpl. repeat split; auto. - apply pm_gss. - intros x Hx. apply pm_gso. auto.
+Qed.
+Lemma write_arr_eff a l' s u s' : write_arr a l' s = Ok (u, s') ->
+  (exists l, find_arr s a = Some l) /\ find_arr s' a = Some l' /\
+  (forall x, x <> a -> find_arr s' x = find_arr s x) /\ (forall x, find_node s' x = find_node s x) /\
+  s_next s' = s_next s /\ meta_same s s'.
+Proof.
+  unfold write_arr. intros H. destruct (PM.find a (s_arrs s)) as [l|] eqn:Hl; [|discriminate].
+  inversion H; subst; clear H.
+  unfold find_node, find_arr, meta_same. simpl. repeat split; eauto. - apply pm_gss. - intros x Hx. apply pm_gso. auto.
+Qed.
+Lemma set_key_eff a k s u s' : set_key a k s = Ok (u, s') ->
+  exists o, find_node s a = Some o /\ find_node s' a = Some {| n_key := k; n_route := n_route o; n_arr := n_arr o |} /\
+  (forall x, x <> a -> find_node s' x = find_node s x) /\ (forall x, find_arr s' x = find_arr s x) /\
+  s_next s' = s_next s /\ meta_same s s'.
+Proof.
+  unfold set_key. intros H. destruct (PM.find a (s_nodes s)) as [o|] eqn:Ho; [|discriminate].
+  inversion H; subst; clear H. exists o.
+  unfold find_node, find_arr, meta_same. simpl. repeat split; auto. - apply pm_gss. - intros x Hx. apply pm_gso. auto.
+Qed.
+
+Lemma w_get_eff ev a s b s' : w_get ev a s = Ok (b, s') -> heap_same s s' /\ meta_same s s'.
+Proof. unfold w_get. intros H. destruct (take_out a (s_wr s)); inversion H; subst; unfold heap_same, meta_same; simpl; tauto. Qed.
+Lemma w_add_if_cache_eff ev a s u s' : w_add_if_cache ev a s = Ok (u, s') -> heap_same s s' /\ meta_same s s'.
+Proof.
+  unfold w_add_if_cache, bind, get_cache, w_add, ret. destruct (s_cache s); intros H; inversion H; subst;
+    unfold heap_same, meta_same; simpl; tauto.
+Qed.
+Lemma set_root_eff r s u s' : set_root r s = Ok (u, s') ->
+  heap_same s s' /\ s_root s' = r /\ s_size s' = s_size s /\ s_maxp s' = s_maxp s /\ s_depth s' = s_depth s /\ s_cache s' = s_cache s.
+Proof. unfold set_root. intros H. inversion H; subst. unfold heap_same. simpl. tauto. Qed.
+
+(* ---------- rep under allocation-only / heap-preserving steps ---------- *)
+Lemma frame_old s s' W x : frame s s' W -> x < s_next s -> ~ In x W -> same_at s s' x.
+Proof. intros [_ F]. auto. Qed.
+
+Lemma rep_frame' s s' W a n fp : wf s -> frame s s' W -> rep s a n fp -> (forall x, In x fp -> ~ In x W) -> rep s' a n fp.
+Proof.
+  intros Wf F H D. eapply rep_frame; eauto. intros x Hx. eapply frame_old; eauto.
+  pose proof (rep_lt s Wf _ _ _ H) as L. rewrite Forall_forall in L. apply L. auto.
+Qed.
+Lemma reps_frame' s s' W ch kids fps : wf s -> frame s s' W -> reps s ch kids fps ->
+  (forall x, In x (List.concat fps) -> ~ In x W) -> reps s' ch kids fps.
+Proof.
+  intros Wf F H D. eapply reps_frame; eauto. intros x Hx. eapply frame_old; eauto.
+  pose proof (reps_lt s _ _ _ Wf H) as L. rewrite Forall_forall in L. apply L. auto.
+Qed.
+
+(* ---------- one level of the copy-on-write descent ---------- *)
+Ltac spl := repeat match goal with |- _ /\ _ => split end.
+
+Definition sub_fresh (s : st) (fp fp' : list addr) : Prop := forall x, In x fp' -> In x fp \/ s_next s <= x.
+
+(* after the rest of the operation, node q (same object) represents kids' *)
+Definition inplace_res (s s' : st) (q : addr) (qo : nobj) (fps : list (list addr)) (kids' : list node) : Prop :=
+  exists ch' fps', find_node s' q = Some qo /\ find_arr s' (n_arr qo) = Some ch' /\ reps s' ch' kids' fps' /\
+     NoDup (q :: n_arr qo :: List.concat fps') /\
+     sub_fresh s (List.concat fps) (List.concat fps') /\
+     frame s s' (n_arr qo :: List.concat fps) /\ good 1 s'.
+
+Lemma sub_fresh_trans s s1 a b c : s_next s <= s_next s1 -> sub_fresh s a b -> sub_fresh s1 b c -> sub_fresh s a c.
+Proof. intros L H1 H2 x Hx. destruct (H2 x Hx) as [Hb|Hl]; [auto|right; lia]. Qed.
+
+Lemma good1_wf s : good 1 s -> wf s. Proof. apply g_wf. Qed.
+
+Lemma in_concat_set_nth_inv {A} (l : list (list A)) j f f' x :
+  nth_error l j = Some f -> In x (List.concat l) -> In x f \/ In x (List.concat (set_nth l j f')).
+Proof.
+  revert j. induction l as [|g l IH]; intros [|j] H Hx; simpl in *; try discriminate.
+  - inversion H; subst. apply in_app_or in Hx. destruct Hx; auto. right. apply in_or_app. auto.
+  - apply in_app_or in Hx. destruct Hx as [Hx|Hx].
+    + right. apply in_or_app. auto.
+    + destruct (IH _ H Hx); auto. right. apply in_or_app. auto.
+Qed.
+
+Section Descend.
+Variable evict : N -> list addr -> list addr.
+Hypothesis evict_sub : forall c w a, In a (evict c w) -> In a w.
+
+(* the clone-or-reuse block of copyOnWriteSearch below an in-place parent p *)
+Definition relink (p cur : addr) : M addr :=
+  hit <- w_get evict cur ;;
+  (if hit then ret cur
+   else cp <- clone cur ;; w_add_if_cache evict cp ;;; (update_edge p cp) ;;; ret cp).
+
+Lemma descend s p po pch kidsP fpsP j cur n fpn cn p' s1 :
+  good 1 s ->
+  find_node s p = Some po -> find_arr s (n_arr po) = Some pch -> reps s pch kidsP fpsP ->
+  NoDup (p :: n_arr po :: List.concat fpsP) ->
+  nth_error kidsP j = Some n -> nth_error pch j = Some cur -> nth_error fpsP j = Some fpn ->
+  hd_byte (nkey n) = Some cn -> find_child_from 0 cn kidsP = Some j ->
+  relink p cur s = Ok (p', s1) ->
+  exists co co' cch fpsn,
+    find_node s cur = Some co /\ find_arr s (n_arr co) = Some cch /\ reps s cch (nchildren n) fpsn /\
+    fpn = cur :: n_arr co :: List.concat fpsn /\
+    find_node s1 p' = Some co' /\ n_key co' = nkey n /\ n_route co' = nroute n /\
+    find_arr s1 (n_arr co') = Some cch /\ reps s1 cch (nchildren n) fpsn /\
+    let fpn' := p' :: n_arr co' :: List.concat fpsn in
+    find_node s1 p = Some po /\ find_arr s1 (n_arr po) = Some (set_nth pch j p') /\
+    reps s1 (set_nth pch j p') kidsP (set_nth fpsP j fpn') /\
+    NoDup (p :: n_arr po :: List.concat (set_nth fpsP j fpn')) /\
+    frame s s1 [n_arr po] /\ sub_fresh s fpn fpn' /\ meta_same s s1 /\ good 1 s1.
+Proof.
+  intros G Hpo Hpch HrP ND Hj Hcur Hfj Hcn Hfc H.
+  pose proof (good1_wf _ G) as Wf.
+  destruct (all3_nth _ _ _ _ _ _ HrP Hj) as (cur0 & fpn0 & Hc0 & Hf0 & Hrep).
+  assert (cur0 = cur) by congruence. assert (fpn0 = fpn) by congruence. subst cur0 fpn0.
+  destruct n as [kn rn kidsn]. simpl in *.
+  apply rep_unfold in Hrep. destruct Hrep as (co & cch & fpsn & Hco & Hk & Hr & Hcch & Hkids & Hfp).
+  unfold relink in H. mbind H hit s2 H2.
+  destruct (w_get_eff _ _ _ _ _ H2) as (HS2 & MS2).
+  destruct (w_get_ok evict evict_sub 1 _ _ _ _ G H2) as (G2 & _ & _). clear H2.
+  assert (F2 : frame s s2 [n_arr po]) by (apply frame_heap_same; auto).
+  assert (SA2 : forall x, same_at s s2 x) by (intros; apply heap_same_at; auto).
+  destruct hit.
+  - (* already writable: reuse *)
+    apply ret_ok in H. destruct H as [-> ->].
+    exists co, co, cch, fpsn.
+    assert (Hco2 : find_node s2 cur = Some co) by (rewrite (proj1 (SA2 cur)); auto).
+    assert (Hcch2 : find_arr s2 (n_arr co) = Some cch) by (rewrite (proj2 (SA2 _)); auto).
+    assert (Hkids2 : reps s2 cch kidsn fpsn) by (eapply reps_frame; eauto).
+    rewrite (set_nth_same pch j cur) by auto. rewrite <- Hfp. rewrite (set_nth_same fpsP j fpn) by auto.
+    assert (Hpo2 : find_node s2 p = Some po) by (rewrite (proj1 (SA2 p)); auto).
+    assert (Hpch2 : find_arr s2 (n_arr po) = Some pch) by (rewrite (proj2 (SA2 _)); auto).
+    assert (HrP2 : reps s2 pch kidsP fpsP) by (eapply reps_frame; eauto).
+    assert (SF : sub_fresh s fpn fpn) by (intros x Hx; auto).
+    spl; auto.
+  - (* clone and link into the parent *)
+    mbind H cp s3 H3. unfold clone in H3.
+    mbind H3 co2 s4 H4. apply get_node_ok in H4. destruct H4 as [-> Hco2]. rewrite (proj1 (SA2 cur)) in Hco2.
+    assert (co2 = co) by congruence. subst co2.
+    mbind H3 cch2 s4 H4. apply get_arr_ok in H4. destruct H4 as [-> Hcch2]. rewrite (proj2 (SA2 _)) in Hcch2.
+    assert (cch2 = cch) by congruence. subst cch2.
+    mbind H3 A' s4 H4.
+    pose proof (proj2 (wf_arr _ Wf _ _ Hcch)) as Fcch.
+    assert (Fcch2 : Forall (V s2) cch).
+    { eapply Forall_impl; [|exact Fcch]. unfold V. destruct HS2 as (_ & _ & ->). auto. }
+    destruct (alloc_arr_ok 1 _ _ _ _ G2 Fcch2 H4) as (G4 & _ & V4 & _ & _).
+    destruct (alloc_arr_eff _ _ _ _ H4) as (EA & N4 & FA & OA & ON4 & MS4). clear H4.
+    pose proof (fun pf => alloc_node_ok 1 _ _ _ _ G4 pf H3) as X. simpl in X.
+    destruct (X V4) as (G5 & _ & V5 & _ & _). clear X.
+    destruct (alloc_node_eff _ _ _ _ H3) as (EC & N5 & FC & OC & OA5 & MS5). clear H3.
+    mbind H u s6 H6. destruct (w_add_if_cache_eff _ _ _ _ _ H6) as (HS6 & MS6).
+    assert (O5 : own 1 s3 cp).
+    { split; [lia|]. eexists. split; [exact FC|]. simpl. lia. }
+    destruct (w_add_if_cache_ok evict evict_sub 1 _ _ _ _ G5 O5 H6) as (G6 & _). clear H6.
+    assert (Nx2 : s_next s2 = s_next s) by (destruct HS2 as (_ & _ & ->); auto).
+    assert (LA : s_next s <= A') by lia. assert (LC : s_next s < cp) by lia.
+    (* everything allocated before is unchanged in s6 *)
+    assert (Old : forall x, x < s_next s -> same_at s s6 x).
+    { intros x Lx. eapply same_at_trans; [apply SA2|]. eapply same_at_trans; [|apply heap_same_at; exact HS6].
+      split.
+      - rewrite OC by lia. apply ON4.
+      - rewrite OA5. apply OA. lia. }
+    assert (Lfp : Forall (V s) (p :: n_arr po :: List.concat fpsP)).
+    { destruct (wf_node _ Wf _ _ Hpo). constructor; auto. constructor; auto. eapply reps_lt; eauto. }
+    assert (Lp : p < s_next s) by (inversion Lfp; auto).
+    assert (LAp : n_arr po < s_next s) by (inversion Lfp as [|? ? ? T]; inversion T; auto).
+    assert (Hpo6 : find_node s6 p = Some po) by (rewrite (proj1 (Old p Lp)); auto).
+    assert (Hpch6 : find_arr s6 (n_arr po) = Some pch) by (rewrite (proj2 (Old _ LAp)); auto).
+    assert (HrP6 : reps s6 pch kidsP fpsP).
+    { eapply reps_frame; eauto. intros x Hx. apply Old. pose proof (reps_lt _ _ _ _ Wf HrP) as L.
+      rewrite Forall_forall in L. apply L. auto. }
+    assert (FC6 : find_node s6 cp = Some {| n_key := n_key co; n_route := n_route co; n_arr := A' |})
+      by (rewrite (proj1 (heap_same_at _ _ cp HS6)); auto).
+    assert (FA6 : find_arr s6 A' = Some cch).
+    { rewrite (proj2 (heap_same_at _ _ A' HS6)). rewrite OA5. auto. }
+    (* the write into the parent's array *)
+    mbind H u2 s7 H7. apply ret_ok in H. destruct H as [-> <-].
+    assert (Op6 : own 1 s6 p) by (split; [lia|]; exists po; split; auto; lia).
+    assert (Vcp6 : V s6 cp).
+    { unfold V. destruct HS6 as (_ & _ & ->). unfold V in V5. auto. }
+    destruct (update_edge_ok 1 _ _ _ _ _ G6 Op6 Vcp6 H7) as (G7 & _).
+    unfold update_edge in H7.
+    mbind H7 kk s8 H8. unfold key_of in H8. mbind H8 o8 s9 H9. apply get_node_ok in H9. destruct H9 as [-> Ho8].
+    apply ret_ok in H8. destruct H8 as [-> ->]. rewrite FC6 in Ho8. inversion Ho8; subst o8; clear Ho8. simpl in H7.
+    rewrite Hk in H7. destruct kn as [|c0 kn']; [discriminate|]. simpl in Hcn. inversion Hcn; subst c0; clear Hcn.
+    mbind H7 o8 s8 H8. apply get_node_ok in H8. destruct H8 as [-> Ho8]. assert (o8 = po) by congruence. subst o8.
+    mbind H7 ch8 s8 H8. apply get_arr_ok in H8. destruct H8 as [-> Hch8]. assert (ch8 = pch) by congruence. subst ch8.
+    mbind H7 ks s8 H8. rewrite (keys_of_reps _ _ _ _ HrP6) in H8. inversion H8; subst ks s8; clear H8.
+    rewrite find_idx_child, Hfc in H7.
+    destruct (write_slot_eff _ _ _ _ _ _ H7) as (l & Hl & Li & FW & OW & NW & NxW & MSW). clear H7.
+    assert (l = pch) by congruence. subst l.
+    assert (Old7 : forall x, x < s_next s -> x <> n_arr po -> same_at s s1 x).
+    { intros x Lx Nx. eapply same_at_trans; [apply Old; auto|]. split; [apply NW|apply OW; auto]. }
+    exists co, {| n_key := n_key co; n_route := n_route co; n_arr := A' |}, cch, fpsn. simpl.
+    assert (Dfp : NoDup (List.concat fpsP)) by (inversion ND as [|? ? ? T]; inversion T; auto).
+    assert (NPin : ~ In p (List.concat fpsP) /\ ~ In (n_arr po) (List.concat fpsP)).
+    { inversion ND as [|? ? Hp T]; inversion T as [|? ? Ha T']; subst. split; auto. intros Hi. apply Hp. simpl. auto. }
+    assert (Hpne : n_arr po <> p).
+    { inversion ND as [|? ? Hp T]. intros Hi. apply Hp. simpl. auto. }
+    assert (Kids7 : reps s1 cch kidsn fpsn).
+    { apply (reps_frame s s1 _ _ _ Hkids). intros x Hx. apply Old7.
+      - pose proof (reps_lt _ _ _ _ Wf Hkids) as L. rewrite Forall_forall in L. apply L. auto.
+      - intros ->. apply (proj2 NPin). eapply in_lconcat_nth; eauto. rewrite Hfp. simpl. auto. }
+    assert (FC7 : find_node s1 cp = Some {| n_key := n_key co; n_route := n_route co; n_arr := A' |}) by (rewrite NW; auto).
+    assert (FA7 : find_arr s1 A' = Some cch) by (rewrite OW; auto; lia).
+    assert (R1 : find_node s1 p = Some po) by (rewrite NW; auto).
+    assert (R2 : reps s1 (set_nth pch j cp) kidsP (set_nth fpsP j (cp :: A' :: List.concat fpsn))).
+    { rewrite <- (set_nth_same kidsP j _ Hj). apply all3_set.
+      * apply (reps_frame s s1 _ _ _ HrP). intros x Hx. apply Old7.
+        -- pose proof (reps_lt _ _ _ _ Wf HrP) as L. rewrite Forall_forall in L. apply L. auto.
+        -- intros ->. apply (proj2 NPin). auto.
+      * apply rep_unfold. eexists _, cch, fpsn. spl; eauto. }
+    assert (R3 : NoDup (p :: n_arr po :: List.concat (set_nth fpsP j (cp :: A' :: List.concat fpsn)))).
+    { assert (ND' : NoDup (List.concat (set_nth fpsP j (cp :: A' :: List.concat fpsn)))).
+      { eapply NoDup_concat_set_nth; eauto.
+        - pose proof (NoDup_concat_nth _ _ _ Dfp Hfj) as Nf. rewrite Hfp in Nf.
+          inversion Nf as [|? ? H1 T]; inversion T as [|? ? H2 T']; subst.
+          pose proof (reps_lt _ _ _ _ Wf Hkids) as L. rewrite Forall_forall in L.
+          constructor; [|constructor; auto].
+          + intros [Hi|Hi]; [lia|]. apply L in Hi. unfold V in Hi. lia.
+          + intros Hi. apply L in Hi. unfold V in Hi. lia.
+        - intros x [<-|[<-|Hx]].
+          + right. intros Hi. pose proof (reps_lt _ _ _ _ Wf HrP) as L. rewrite Forall_forall in L. apply L in Hi. unfold V in Hi. lia.
+          + right. intros Hi. pose proof (reps_lt _ _ _ _ Wf HrP) as L. rewrite Forall_forall in L. apply L in Hi. unfold V in Hi. lia.
+          + left. rewrite Hfp. simpl. auto. }
+      assert (Sub : forall x, In x (List.concat (set_nth fpsP j (cp :: A' :: List.concat fpsn))) ->
+                    In x (List.concat fpsP) \/ s_next s <= x).
+      { intros x Hx. destruct (in_concat_set_nth _ _ _ _ Hx) as [[<-|[<-|Hi]]|Hi]; auto; try (right; lia).
+        left. eapply in_lconcat_nth; eauto. rewrite Hfp. simpl. auto. }
+      constructor; [|constructor; auto].
+      * intros [Hi|Hi]; [auto|]. destruct (Sub _ Hi) as [Hi'|Hi']; [apply (proj1 NPin); auto|lia].
+      * intros Hi. destruct (Sub _ Hi) as [Hi'|Hi']; [apply (proj2 NPin); auto|lia]. }
+    assert (N6 : s_next s6 = s_next s3) by (destruct HS6 as (_ & _ & ->); auto).
+    assert (R4 : frame s s1 [n_arr po]).
+    { split; [lia|]. intros x Lx Nx. apply Old7; auto. intros ->. apply Nx. simpl. auto. }
+    assert (R5 : sub_fresh s fpn (cp :: A' :: List.concat fpsn)).
+    { intros x [<-|[<-|Hx]]; try (right; lia). left. rewrite Hfp. simpl. auto. }
+    assert (R6 : meta_same s s1).
+    { eapply meta_same_trans; [exact MS2|]. eapply meta_same_trans; [exact MS4|].
+      eapply meta_same_trans; [exact MS5|]. eapply meta_same_trans; [exact MS6|]. exact MSW. }
+    spl; auto.
+Qed.
+
+End Descend.
+
+Lemma all3_set_frame {A B C} (R R' : A -> B -> C -> Prop) la lb lc j a b c :
+  all3 R la lb lc ->
+  (forall k x y z, k <> j -> nth_error la k = Some x -> nth_error lb k = Some y -> nth_error lc k = Some z -> R x y z -> R' x y z) ->
+  R' a b c -> all3 R' (set_nth la j a) (set_nth lb j b) (set_nth lc j c).
+Proof.
+  revert la lc j. induction lb as [|b0 lb IH]; intros [|a0 la] [|c0 lc] j H Hk Hr; simpl in *; try tauto;
+    destruct j as [|j]; simpl; try tauto.
+  - destruct H as [H0 H]. split; auto.
+    clear IH. revert la lc H Hk. induction lb as [|b1 lb IH]; intros [|a1 la] [|c1 lc] H Hk; simpl in *; try tauto.
+    destruct H as [H1 H]. split.
+    + apply (Hk 1%nat); auto.
+    + apply IH; auto. intros k x y z Hne Hx Hy Hz. destruct k as [|k]; [congruence|].
+      apply (Hk (S (S k))); auto.
+  - destruct H as [H0 H]. split.
+    + apply (Hk 0%nat); auto.
+    + apply IH; auto. intros k x y z Hne Hx Hy Hz. apply (Hk (S k)); auto.
+Qed.
+
+Lemma ascend s1 s' p po pch1 kidsP fpsP1 j p' co' fpsn kn rn kidsn kids' :
+  good 1 s1 ->
+  find_node s1 p = Some po -> find_arr s1 (n_arr po) = Some pch1 -> reps s1 pch1 kidsP fpsP1 ->
+  NoDup (p :: n_arr po :: List.concat fpsP1) ->
+  nth_error pch1 j = Some p' -> nth_error kidsP j = Some (Node kn rn kidsn) ->
+  nth_error fpsP1 j = Some (p' :: n_arr co' :: List.concat fpsn) ->
+  n_key co' = kn -> n_route co' = rn ->
+  inplace_res s1 s' p' co' fpsn kids' ->
+  inplace_res s1 s' p po fpsP1 (set_nth kidsP j (Node kn rn kids')).
+Proof.
+  intros G Hpo Hpch HrP ND Hp' Hj Hfj Hk Hr (ch' & fps' & Hco' & Hch' & Hkids' & ND' & SF & Fr & G').
+  pose proof (good1_wf _ G) as Wf.
+  assert (Lall : Forall (V s1) (List.concat fpsP1)) by (eapply reps_lt; eauto).
+  rewrite Forall_forall in Lall.
+  destruct (wf_node _ Wf _ _ Hpo) as [Lp LA].
+  assert (Np : ~ In p (n_arr po :: List.concat fpsP1)) by (inversion ND; auto).
+  assert (NA : ~ In (n_arr po) (List.concat fpsP1)) by (inversion ND as [|? ? ? T]; inversion T; auto).
+  assert (Dfp : NoDup (List.concat fpsP1)) by (inversion ND as [|? ? ? T]; inversion T; auto).
+  set (fold := p' :: n_arr co' :: List.concat fpsn) in *.
+  set (fnew := p' :: n_arr co' :: List.concat fps').
+  assert (InOld : forall x, In x fold -> In x (List.concat fpsP1)) by (intros x Hx; eapply in_lconcat_nth; eauto).
+  assert (Sub : forall x, In x fnew -> In x fold \/ s_next s1 <= x).
+  { intros x [<-|[<-|Hx]]; [left; simpl; auto|left; simpl; auto|].
+    destruct (SF x Hx); [left; simpl; auto|auto]. }
+  assert (Wsub : forall x, In x (n_arr co' :: List.concat fpsn) -> In x fold) by (intros x Hx; simpl; auto).
+  exists pch1, (set_nth fpsP1 j fnew).
+  assert (E1 : find_node s' p = Some po).
+  { rewrite (proj1 (frame_old _ _ _ p Fr Lp ltac:(intros Hi; apply Np; right; apply InOld; apply Wsub; auto))). auto. }
+  assert (E2 : find_arr s' (n_arr po) = Some pch1).
+  { rewrite (proj2 (frame_old _ _ _ (n_arr po) Fr LA ltac:(intros Hi; apply NA; apply InOld; apply Wsub; auto))). auto. }
+  assert (E3 : reps s' pch1 (set_nth kidsP j (Node kn rn kids')) (set_nth fpsP1 j fnew)).
+  { rewrite <- (set_nth_same pch1 j p' Hp'). eapply all3_set_frame; [exact HrP| |].
+    - intros k x y z Hne Hx Hy Hz Hrep. eapply rep_frame'; eauto.
+      intros a Ha Hi. apply Wsub in Hi.
+      exact (NoDup_concat_disj _ _ _ _ _ _ Dfp Hne Hz Hfj Ha Hi).
+    - apply rep_unfold. exists co', ch', fps'. spl; auto. }
+  assert (NDc : NoDup (List.concat (set_nth fpsP1 j fnew))).
+  { eapply NoDup_concat_set_nth; eauto. intros x Hx. destruct (Sub x Hx); auto.
+    right. intros Hi. apply Lall in Hi. unfold V in Hi. lia. }
+  assert (Sub2 : forall x, In x (List.concat (set_nth fpsP1 j fnew)) -> In x (List.concat fpsP1) \/ s_next s1 <= x).
+  { intros x Hx. destruct (in_concat_set_nth _ _ _ _ Hx) as [Hi|Hi]; auto. destruct (Sub x Hi); auto. }
+  spl; auto.
+  - constructor; [|constructor; auto].
+    + intros [Hi|Hi]; [apply Np; simpl; auto|]. destruct (Sub2 _ Hi) as [Hi'|Hi']; [apply Np; simpl; auto|unfold V in Lp; lia].
+    + intros Hi. destruct (Sub2 _ Hi) as [Hi'|Hi']; [auto|unfold V in LA; lia].
+  - destruct Fr as [Ln F]. split; auto. intros x Lx Nx. apply F; auto. intros Hi. apply Nx. right. apply InOld. apply Wsub. auto.
+Qed.
+
+(* an in-place result seen from an earlier state *)
+Lemma inplace_res_pre s s1 s' q qo fps fps1 kids' W0 :
+  frame s s1 W0 -> (forall x, In x W0 -> In x (n_arr qo :: List.concat fps)) ->
+  sub_fresh s (List.concat fps) (List.concat fps1) ->
+  inplace_res s1 s' q qo fps1 kids' -> inplace_res s s' q qo fps kids'.
+Proof.
+  intros F0 HW SF0 (ch' & fps' & Hq & Hch' & Hkids' & ND' & SF & Fr & G').
+  exists ch', fps'. spl; auto.
+  - eapply sub_fresh_trans; eauto. apply (proj1 F0).
+  - eapply frame_trans; eauto. intros x Lx [Hi|Hi]; auto.
+    destruct Hi as [<-|Hi]; [simpl; auto|]. destruct (SF0 x Hi) as [Hi'|Hi']; [simpl; auto|lia].
+Qed.
+
+(* ---------- the inner loop of copyOnWriteSearch vs common_prefix ---------- *)
+Lemma match_key_spec key : forall rest n r b,
+  match_key key rest = (n, r, b) ->
+  n = List.length (common_prefix rest key) /\ r = skipn n rest /\
+  (n <= List.length key)%nat /\ (n <= List.length rest)%nat /\
+  (b = true -> (n < List.length key)%nat /\ (n < List.length rest)%nat) /\
+  (b = false -> n = List.length key \/ n = List.length rest).
+Proof.
+  induction key as [|k key IH]; intros [|c rest] n r b H; simpl in H.
+  - inversion H; subst. simpl. spl; auto; try lia; try discriminate.
+  - inversion H; subst. simpl. spl; auto; try lia; try discriminate.
+  - inversion H; subst. simpl. spl; auto; try lia; try discriminate.
+  - simpl. destruct (Ascii.eqb_spec k c) as [->|Hne].
+    + destruct (match_key key rest) as [[n0 r0] b0] eqn:E. inversion H; subst.
+      destruct (IH _ _ _ _ E) as (I1 & I2 & I3 & I4 & I5 & I6).
+      rewrite Ascii.eqb_refl. simpl. spl; auto; try lia.
+      * intros Hb. destruct (I5 Hb). lia.
+      * intros Hb. destruct (I6 Hb); lia.
+    + inversion H; subst. assert (Ascii.eqb c k = false) by (apply Ascii.eqb_neq; auto).
+      rewrite H0. simpl. spl; auto; try lia; try discriminate.
+Qed.
+
+Lemma skipn_nil_iff {A} (l : list A) n : (n <= List.length l)%nat -> (skipn n l = [] <-> n = List.length l).
+Proof.
+  revert n. induction l as [|x l IH]; intros [|n] L; simpl in *; try lia; split; intros H; auto; try lia; try discriminate.
+  - f_equal. apply IH; auto. lia.
+  - apply IH; auto; lia.
+Qed.
+
+(* ---------- building and linking new nodes ---------- *)
+Lemma nnfr_rep s k r A kidsc ch fpsc x s1 :
+  good 1 s -> find_arr s A = Some ch -> reps s ch kidsc fpsc ->
+  new_node_from_ref k r A s = Ok (x, s1) ->
+  x = s_next s /\ s_next s1 = Pos.succ (s_next s) /\
+  rep s1 x (Node k r kidsc) (x :: A :: List.concat fpsc) /\
+  (forall y, y < s_next s -> same_at s s1 y) /\ meta_same s s1 /\ good 1 s1.
+Proof.
+  intros G HA Hr H. pose proof (good1_wf _ G) as Wf. unfold new_node_from_ref in H.
+  destruct (wf_arr _ Wf _ _ HA) as [VA _].
+  pose proof (fun pf => alloc_node_ok 1 _ _ _ _ G pf H) as X. simpl in X. destruct (X VA) as (G1 & _). clear X.
+  destruct (alloc_node_eff _ _ _ _ H) as (E & Nx & F & O & OA & MS).
+  assert (Old : forall y, y < s_next s -> same_at s s1 y).
+  { intros y Ly. split; [apply O; lia|apply OA]. }
+  spl; auto.
+  apply rep_unfold. eexists _, ch, fpsc. spl; eauto.
+  - simpl. rewrite OA. auto.
+  - eapply reps_frame; eauto. intros y Hy. apply Old.
+    pose proof (reps_lt _ _ _ _ Wf Hr) as L. rewrite Forall_forall in L. apply L. auto.
+Qed.
+
+Lemma new_node_rep s k r a l kids fps x s1 :
+  good 1 s -> find_arr s a = Some l -> reps s l kids fps -> ~ In a (List.concat fps) ->
+  new_node k r a s = Ok (x, s1) ->
+  exists fps', x = s_next s /\ s_next s1 = Pos.succ (s_next s) /\
+    rep s1 x (Node k r (sort_nodes kids)) (x :: a :: List.concat fps') /\
+    Permutation (List.concat fps') (List.concat fps) /\
+    (forall y, y < s_next s -> y <> a -> same_at s s1 y) /\ meta_same s s1 /\ good 1 s1.
+Proof.
+  intros G Ha Hr Na H. pose proof (good1_wf _ G) as Wf. unfold new_node in H.
+  mbind H ch s2 H2. apply get_arr_ok in H2. destruct H2 as [-> Hch]. assert (ch = l) by congruence. subst ch.
+  mbind H ks s2 H2. rewrite (keys_of_reps _ _ _ _ Hr) in H2. inversion H2; subst ks s2; clear H2.
+  mbind H u s2 H2.
+  destruct (wf_arr _ Wf _ _ Ha) as [Va Fl].
+  assert (Fs : Forall (V s) (map snd (sort_pairs (combine (map nkey kids) l)))).
+  { rewrite Forall_forall in *. intros y Hy. apply Fl. eapply sorted_sub; eauto. }
+  destruct (write_arr_ok 1 _ _ _ _ _ G ltac:(lia) Fs H2) as (G2 & _).
+  destruct (write_arr_eff _ _ _ _ _ H2) as (_ & FW & OW & NW & NxW & MSW). clear H2.
+  destruct (sort_reps _ _ _ _ Hr) as (fps' & Hr' & Perm).
+  assert (Old2 : forall y, y <> a -> same_at s s2 y) by (intros y Hy; split; [apply NW|apply OW; auto]).
+  assert (Hr2 : reps s2 (map snd (sort_pairs (combine (map nkey kids) l))) (sort_nodes kids) fps').
+  { eapply reps_frame; eauto. intros y Hy. apply Old2. intros ->. apply Na.
+    eapply Permutation_in; eauto. }
+  destruct (nnfr_rep _ _ _ _ _ _ _ _ _ G2 FW Hr2 H) as (Ex & Nx & Rx & Oldx & MSx & Gx).
+  exists fps'. rewrite NxW in *. spl; auto.
+  - intros y Ly Hy. eapply same_at_trans; [apply Old2; auto|apply Oldx; auto].
+  - eapply meta_same_trans; eauto.
+Qed.
+
+(* p.updateEdge(x): replacing the i-th child of an in-place node *)
+Lemma patch_child s q qo qch kids fps i c fc c0 x xn fx s' :
+  good 1 s -> find_node s q = Some qo -> find_arr s (n_arr qo) = Some qch -> reps s qch kids fps ->
+  NoDup (q :: n_arr qo :: List.concat fps) ->
+  nth_error kids i = Some c -> nth_error fps i = Some fc ->
+  hd_byte (nkey c) = Some c0 -> find_child_from 0 c0 kids = Some i ->
+  rep s x xn fx -> hd_byte (nkey xn) = Some c0 -> NoDup fx ->
+  (forall y, In y fx -> In y fc \/ ~ In y (q :: n_arr qo :: List.concat fps)) ->
+  update_edge q x s = Ok (tt, s') ->
+  find_node s' q = Some qo /\ find_arr s' (n_arr qo) = Some (set_nth qch i x) /\
+  reps s' (set_nth qch i x) (set_nth kids i xn) (set_nth fps i fx) /\
+  NoDup (q :: n_arr qo :: List.concat (set_nth fps i fx)) /\
+  (forall y, y <> n_arr qo -> same_at s s' y) /\ s_next s' = s_next s /\ meta_same s s' /\ good 1 s'.
+Proof.
+  intros G Hq Hqch Hr ND Hi Hfi Hc0 Hfc Hx Hx0 NDx Sub H.
+  pose proof (good1_wf _ G) as Wf.
+  assert (Np : ~ In q (n_arr qo :: List.concat fps)) by (inversion ND; auto).
+  assert (NA : ~ In (n_arr qo) (List.concat fps)) by (inversion ND as [|? ? ? T]; inversion T; auto).
+  assert (Dfp : NoDup (List.concat fps)) by (inversion ND as [|? ? ? T]; inversion T; auto).
+  assert (Oq : own 1 s q) by (split; [lia|]; exists qo; split; auto; lia).
+  pose proof (rep_lt _ Wf _ _ _ Hx) as Lx. destruct (rep_head _ _ _ _ Hx) as (tx & Efx).
+  assert (Vx : V s x) by (rewrite Efx in Lx; inversion Lx; auto).
+  destruct (update_edge_ok 1 _ _ _ _ _ G Oq Vx H) as (G' & _).
+  unfold update_edge in H.
+  mbind H kk s2 H2. unfold key_of in H2. mbind H2 o2 s3 H3. apply get_node_ok in H3. destruct H3 as [-> Ho2].
+  apply ret_ok in H2. destruct H2 as [-> ->].
+  destruct (rep_key _ _ _ _ Hx) as (xo & Hxo & Kx & _). assert (o2 = xo) by congruence. subst o2.
+  rewrite Kx in H. destruct (nkey xn) as [|c1 kx] eqn:Ekx; [discriminate|]. simpl in Hx0. inversion Hx0; subst c1; clear Hx0.
+  mbind H o2 s2 H2. apply get_node_ok in H2. destruct H2 as [-> Ho2']. assert (o2 = qo) by congruence. subst o2.
+  mbind H ch2 s2 H2. apply get_arr_ok in H2. destruct H2 as [-> Hch2]. assert (ch2 = qch) by congruence. subst ch2.
+  mbind H ks s2 H2. rewrite (keys_of_reps _ _ _ _ Hr) in H2. inversion H2; subst ks s2; clear H2.
+  rewrite find_idx_child, Hfc in H.
+  destruct (write_slot_eff _ _ _ _ _ _ H) as (l & Hl & Li & FW & OW & NW & NxW & MSW). clear H.
+  assert (l = qch) by congruence. subst l.
+  assert (Old : forall y, y <> n_arr qo -> same_at s s' y) by (intros y Hy; split; [apply NW|apply OW; auto]).
+  assert (NAx : ~ In (n_arr qo) fx).
+  { intros Hi'. destruct (Sub _ Hi') as [Hf|Hn]; [|apply Hn; simpl; auto].
+    apply NA. eapply in_lconcat_nth; eauto. }
+  assert (Sub2 : forall y, In y (List.concat (set_nth fps i fx)) -> In y (List.concat fps) \/ In y fx).
+  { intros y Hy. destruct (in_concat_set_nth _ _ _ _ Hy); auto. }
+  spl; auto.
+  - rewrite NW. auto.
+  - eapply all3_set_frame; [exact Hr| |].
+    + intros k a b z Hne Ha Hb Hz Hrep. eapply rep_frame; eauto. intros y Hy. apply Old.
+      intros ->. apply NA. eapply in_lconcat_nth; eauto.
+    + eapply rep_frame; eauto. intros y Hy. apply Old. intros ->. auto.
+  - assert (NDc : NoDup (List.concat (set_nth fps i fx))).
+    { eapply NoDup_concat_set_nth; eauto. intros y Hy. destruct (Sub y Hy) as [?|Hn]; auto.
+      right. intros Hi'. apply Hn. simpl. auto. }
+    constructor; [|constructor; auto].
+    + intros [Hi'|Hi']; [apply Np; simpl; auto|]. destruct (Sub2 _ Hi') as [Hi''|Hi''].
+      * apply Np. simpl. auto.
+      * destruct (Sub _ Hi'') as [Hf|Hn]; [|apply Hn; simpl; auto]. apply Np. right. eapply in_lconcat_nth; eauto.
+    + intros Hi'. destruct (Sub2 _ Hi') as [Hi''|Hi'']; auto.
+Qed.
+
+Lemma inplace_res_refl s q qo qch kids fps :
+  good 1 s -> find_node s q = Some qo -> find_arr s (n_arr qo) = Some qch -> reps s qch kids fps ->
+  NoDup (q :: n_arr qo :: List.concat fps) -> inplace_res s s q qo fps kids.
+Proof.
+  intros G Hq Hch Hr ND. exists qch, fps. spl; auto.
+  - intros x Hx. auto.
+  - apply frame_refl.
+Qed.
+
+Lemma get_edge_rep s a k r kids fp c :
+  rep s a (Node k r kids) fp ->
+  exists o ch fps, find_node s a = Some o /\ find_arr s (n_arr o) = Some ch /\ reps s ch kids fps /\
+    get_edge a c s = Ok (match find_child (Node k r kids) c with Some i => nth_error ch i | None => None end, s).
+Proof.
+  intros H. apply rep_unfold in H. destruct H as (o & ch & fps & Ho & Hk & Hr & Hch & Hkids & Hfp).
+  exists o, ch, fps. spl; auto.
+  unfold get_edge, bind, get_node, get_arr. unfold find_node in Ho. unfold find_arr in Hch. rewrite Ho, Hch.
+  rewrite (keys_of_reps _ _ _ _ Hkids). rewrite find_idx_child. unfold find_child. simpl.
+  destruct (find_child_from 0 c kids); reflexivity.
+Qed.
+
+Lemma find_child_from_hd i c kids j n : find_child_from i c kids = Some j -> nth_error kids (j - i) = Some n ->
+  exists t, nkey n = c :: t.
+Proof.
+  revert i j. induction kids as [|k kids IH]; intros i j H Hn; simpl in H; try discriminate.
+  destruct (starts_with c (nkey k)) eqn:E.
+  - inversion H; subst. replace (j - j)%nat with 0%nat in Hn by lia. simpl in Hn. inversion Hn; subst.
+    unfold starts_with in E. destruct (nkey n) as [|x t]; [discriminate|]. apply Ascii.eqb_eq in E. subst. eauto.
+  - assert (Hlt : (i < j)%nat).
+    { clear -H. revert i H. induction kids as [|k' kids IH]; intros i H; simpl in H; try discriminate.
+      destruct (starts_with c (nkey k')); [inversion H; lia|]. apply IH in H. lia. }
+    apply (IH (S i) j H). replace (j - i)%nat with (S (j - S i)) in Hn by lia. simpl in Hn. auto.
+Qed.
+
+Lemma find_child_hd c kids j n : find_child_from 0 c kids = Some j -> nth_error kids j = Some n -> hd_byte (nkey n) = Some c.
+Proof.
+  intros H Hn. destruct (find_child_from_hd 0 c kids j n H) as (t & E).
+  - rewrite Nat.sub_0_r. auto.
+  - rewrite E. reflexivity.
+Qed.
+
+Section Sim.
+Variable evict : N -> list addr -> list addr.
+Hypothesis evict_sub : forall c w a, In a (evict c w) -> In a w.
+
+(* the part of tXn.update after copyOnWriteSearch *)
+Definition K_upd (rt : route) (r : sres) : M bool :=
+  mo <- get_node (r_matched r) ;;
+  match is_exact r (List.length (n_key mo)), n_route mo with
+  | true, Some _ =>
+      n <- new_node_from_ref (n_key mo) (Some rt) (n_arr mo) ;;
+      p <- opt_get (r_p r) ;; update_edge p n ;;; ret true
+  | _, _ => ret false
+  end.
+
+Lemma upd_base rt s1 p' co' cch kids fpsn i c nx c0 r out s' :
+  good 1 s1 -> find_node s1 p' = Some co' -> find_arr s1 (n_arr co') = Some cch -> reps s1 cch kids fpsn ->
+  NoDup (p' :: n_arr co' :: List.concat fpsn) ->
+  nth_error kids i = Some c -> nth_error cch i = Some nx ->
+  hd_byte (nkey c) = Some c0 -> find_child_from 0 c0 kids = Some i ->
+  r_matched r = nx -> r_p r = Some p' ->
+  K_upd rt r s1 = Ok (out, s') ->
+  meta_same s1 s' /\
+  if is_exact r (List.length (nkey c)) && is_leaf c
+  then out = true /\ inplace_res s1 s' p' co' fpsn (set_nth kids i (Node (nkey c) (Some rt) (nchildren c)))
+  else out = false /\ s' = s1.
+Proof.
+  intros G Hp' Hcch Hr ND Hi Hnx Hc0 Hfc Hm Hp H.
+  destruct (all3_nth _ _ _ _ _ _ Hr Hi) as (nx0 & fc & Hnx0 & Hfi & Hrep).
+  assert (nx0 = nx) by congruence. subst nx0.
+  destruct c as [kc rc kidsc]. simpl in *.
+  pose proof Hrep as Hrep0. apply rep_unfold in Hrep. destruct Hrep as (mo & mch & fpsc & Hmo & Hk & Hrr & Hmch & Hkidsc & Hfc').
+  unfold K_upd in H. rewrite Hm in H. mbind H mo2 s2 H2. apply get_node_ok in H2. destruct H2 as [-> Hmo2].
+  assert (mo2 = mo) by congruence. subst mo2. rewrite Hk in H. rewrite Hrr in H. unfold is_leaf. simpl.
+  destruct (is_exact r (List.length kc)); simpl.
+  2:{ apply ret_ok in H. destruct H as [-> ->]. split; [apply meta_same_refl|auto]. }
+  destruct rc as [rold|]; simpl.
+  2:{ apply ret_ok in H. destruct H as [-> ->]. split; [apply meta_same_refl|auto]. }
+  mbind H x s2 H2.
+  destruct (nnfr_rep _ _ _ _ _ _ _ _ _ G Hmch Hkidsc H2) as (Ex & Nx & Rx & Oldx & MSx & Gx). clear H2.
+  subst x. set (x := s_next s1) in *.
+  pose proof (good1_wf _ G) as Wf.
+  assert (Lall : Forall (V s1) (p' :: n_arr co' :: List.concat fpsn)).
+  { destruct (wf_node _ Wf _ _ Hp'). constructor; auto. constructor; auto. eapply reps_lt; eauto. }
+  rewrite Forall_forall in Lall.
+  assert (SA : forall y, In y (p' :: n_arr co' :: List.concat fpsn) -> same_at s1 s2 y).
+  { intros y Hy. apply Oldx. apply Lall. auto. }
+  rewrite Hp in H. mbind H q s3 H3. apply opt_get_ok in H3. destruct H3 as [Hq ->]. inversion Hq; subst q; clear Hq.
+  mbind H u s3 H3. apply ret_ok in H. destruct H as [-> <-]. destruct u.
+  assert (Hp2 : find_node s2 p' = Some co') by (rewrite (proj1 (SA p' ltac:(simpl; auto))); auto).
+  assert (Hcch2 : find_arr s2 (n_arr co') = Some cch) by (rewrite (proj2 (SA _ ltac:(simpl; auto))); auto).
+  assert (Hr2 : reps s2 cch kids fpsn) by (eapply reps_frame; eauto; intros y Hy; apply SA; simpl; auto).
+  assert (NDx : NoDup (x :: n_arr mo :: List.concat fpsc)).
+  { assert (Dfp : NoDup (List.concat fpsn)) by (inversion ND as [|? ? ? T]; inversion T; auto).
+    pose proof (NoDup_concat_nth _ _ _ Dfp Hfi) as Nf. rewrite Hfc' in Nf. inversion Nf as [|? ? N1 N2].
+    constructor; auto. intros Hi'. assert (V s1 x).
+    { apply Lall. right. right. eapply in_lconcat_nth; eauto. rewrite Hfc'. right. auto. }
+    unfold V, x in *. lia. }
+  destruct (patch_child s2 p' co' cch kids fpsn i (Node kc (Some rold) kidsc) fc c0 x (Node kc (Some rt) kidsc)
+              (x :: n_arr mo :: List.concat fpsc) s' Gx Hp2 Hcch2 Hr2 ND Hi Hfi Hc0 Hfc Rx Hc0 NDx) as (P1 & P2 & P3 & P4 & P5 & P6 & P7 & P8); auto.
+  { intros y [<-|Hy].
+    - right. intros Hi'. apply Lall in Hi'. unfold V, x in *. lia.
+    - left. rewrite Hfc'. right. auto. }
+  split; [eapply meta_same_trans; eauto|]. split; auto.
+  exists (set_nth cch i x), (set_nth fpsn i (x :: n_arr mo :: List.concat fpsc)). spl; auto.
+  - intros y Hy. destruct (in_concat_set_nth _ _ _ _ Hy) as [[<-|Hi']|Hi']; auto; [right; unfold x; lia|].
+    left. eapply in_lconcat_nth; eauto. rewrite Hfc'. right. auto.
+  - split; [lia|]. intros y Ly Ny. eapply same_at_trans; [apply Oldx; auto|]. apply P5. intros ->. apply Ny. simpl. auto.
+Qed.
+
+(* one iteration of the loop below an in-place parent, in the form used by the simulations *)
+Lemma cow_loop_unfold fuel cur p pp ppp c rest0 from cm cmin depth {A} (K : sres -> M A) s :
+  (r <- cow_loop evict (S fuel) cur (Some p) pp ppp (c :: rest0) from cm cmin depth ;; K r) s =
+  match get_edge cur c s with
+  | Ok (None, s0) => K {| r_matched := cur; r_p := Some p; r_pp := pp; r_ppp := ppp; r_rest := c :: rest0; r_from := from;
+                          r_cm := cm; r_cmin := cmin; r_depth := depth |} s0
+  | Ok (Some nx, s0) =>
+      match relink evict p cur s0 with
+      | Ok (p', s1) =>
+          match key_of nx s1 with
+          | Ok (key, s2) =>
+              let '(n, rest', brk) := match_key key (c :: rest0) in
+              if brk then K {| r_matched := nx; r_p := Some p'; r_pp := Some p; r_ppp := pp; r_rest := rest'; r_from := c :: rest0;
+                               r_cm := cm + n; r_cmin := n; r_depth := S depth |} s2
+              else (r <- cow_loop evict fuel nx (Some p') (Some p) pp rest' (c :: rest0) (cm + n) n (S depth) ;; K r) s2
+          | Panic => Panic | Oof => Oof
+          end
+      | Panic => Panic | Oof => Oof
+      end
+  | Panic => Panic | Oof => Oof
+  end.
+Proof.
+  simpl. unfold relink, bind, ret.
+  destruct (get_edge cur c s) as [[[nx|] s0]| |]; auto.
+  destruct (w_get evict cur s0) as [[hit s1]| |]; auto.
+  destruct hit.
+  - destruct (key_of nx s1) as [[key s2]| |]; auto.
+    destruct (match_key key (c :: rest0)) as [[n rest'] brk]. destruct brk; auto.
+  - destruct (clone cur s1) as [[cp s2]| |]; auto.
+    destruct (w_add_if_cache evict cp s2) as [[u s3]| |]; auto.
+    destruct (update_edge p cp s3) as [[u2 s4]| |]; auto.
+    destruct (key_of nx s4) as [[key s5]| |]; auto.
+    destruct (match_key key (c :: rest0)) as [[n rest'] brk]. destruct brk; auto.
+Qed.
+
+Lemma upd_sim rt fuel : forall s p po pch kidsP fpsP j cur n fpn cn pp ppp rest from cm depth out s',
+  good 1 s ->
+  find_node s p = Some po -> find_arr s (n_arr po) = Some pch -> reps s pch kidsP fpsP ->
+  NoDup (p :: n_arr po :: List.concat fpsP) ->
+  nth_error kidsP j = Some n -> nth_error pch j = Some cur -> nth_error fpsP j = Some fpn ->
+  hd_byte (nkey n) = Some cn -> find_child_from 0 cn kidsP = Some j ->
+  rest <> [] ->
+  (r <- cow_loop evict fuel cur (Some p) pp ppp rest from cm (List.length (nkey n)) depth ;; K_upd rt r) s = Ok (out, s') ->
+  meta_same s s' /\
+  match upd fuel rt n rest with
+  | Some n' => out = true /\ inplace_res s s' p po fpsP (set_nth kidsP j n')
+  | None => out = false /\ inplace_res s s' p po fpsP kidsP
+  end.
+Proof.
+  induction fuel as [|f IH]; intros s p po pch kidsP fpsP j cur n fpn cn pp ppp rest from cm depth out s'
+    G Hpo Hpch HrP ND Hj Hcur Hfj Hcn Hfc Hne H.
+  - simpl in H. discriminate.
+  - destruct rest as [|c rest0]; [congruence|]. rewrite cow_loop_unfold in H.
+    destruct (all3_nth _ _ _ _ _ _ HrP Hj) as (cur0 & fpn0 & Hc0 & Hf0 & Hrep).
+    assert (cur0 = cur) by congruence. assert (fpn0 = fpn) by congruence. subst cur0 fpn0.
+    destruct n as [kn rn kidsn].
+    destruct (get_edge_rep _ _ _ _ _ _ c Hrep) as (co & cch & fpsn & Hco & Hcch & Hkids & GE).
+    rewrite GE in H. cbn [upd]. unfold find_child in *. cbn [nchildren nkey nroute] in *.
+    destruct (find_child_from 0 c kidsn) as [i|] eqn:Hfi.
+    2:{ (* no edge: not found *)
+      unfold K_upd in H. simpl in H. mbind H mo s2 H2. apply get_node_ok in H2. destruct H2 as [-> _].
+      apply ret_ok in H. destruct H as [-> ->].
+      split; [apply meta_same_refl|]. split; auto. eapply inplace_res_refl; eauto. }
+    destruct (nth_error cch i) as [nx|] eqn:Hnx.
+    2:{ (* impossible: the index is within the children *)
+      destruct (nth_error kidsn i) as [cc|] eqn:Hcc.
+      - destruct (all3_nth _ _ _ _ _ _ Hkids Hcc) as (? & ? & Hx & _). congruence.
+      - unfold K_upd in H. simpl in H. mbind H mo s2 H2. apply get_node_ok in H2. destruct H2 as [-> _].
+        apply ret_ok in H. destruct H as [-> ->].
+        split; [apply meta_same_refl|]. split; auto. eapply inplace_res_refl; eauto. }
+    destruct (all3_nth_a _ _ _ _ _ _ Hkids Hnx) as (c1 & fc & Hc1 & Hfc1 & Hrepc).
+    rewrite Hc1.
+    destruct (relink evict p cur s) as [[p' s1]| |] eqn:RL; try discriminate.
+    destruct (descend evict evict_sub s p po pch kidsP fpsP j cur (Node kn rn kidsn) fpn cn p' s1
+                G Hpo Hpch HrP ND Hj Hcur Hfj Hcn Hfc RL)
+      as (co2 & co' & cch2 & fpsn2 & Hco2 & Hcch2 & Hkids2 & Hfpn & Hp' & Hk' & Hr' & Hcch' & Hkids' & Hpo1 & Hpch1 & HrP1 & ND1 & Fr1 & SF1 & MS1 & G1).
+    assert (co2 = co) by congruence. subst co2. assert (cch2 = cch) by congruence. subst cch2.
+    simpl in Hk', Hr', Hkids2, Hkids'.
+    (* the child we descend into, in s1 *)
+    destruct (all3_nth _ _ _ _ _ _ Hkids' Hc1) as (nx1 & fc1 & Hnx1 & Hfc1' & Hrepc1).
+    assert (nx1 = nx) by congruence. subst nx1.
+    destruct (rep_key _ _ _ _ Hrepc1) as (nxo & Hnxo & Knx & Rnx).
+    assert (KO : key_of nx s1 = Ok (nkey c1, s1)).
+    { unfold key_of, bind, get_node. unfold find_node in Hnxo. rewrite Hnxo. unfold ret. rewrite Knx. auto. }
+    rewrite KO in H.
+    destruct (match_key (nkey c1) (c :: rest0)) as [[m rest'] brk] eqn:MK.
+    destruct (match_key_spec _ _ _ _ _ MK) as (Em & Er & Lm1 & Lm2 & Bt & Bf).
+    set (lcp := List.length (common_prefix (c :: rest0) (nkey c1))) in *.
+    assert (ND' : NoDup (p' :: n_arr co' :: List.concat fpsn2)).
+    { assert (Dc : NoDup (List.concat (set_nth fpsP j (p' :: n_arr co' :: List.concat fpsn2))))
+        by (inversion ND1 as [|? ? ? T]; inversion T; auto).
+      eapply NoDup_concat_nth; [exact Dc|]. eapply nth_set_nth_eq; eauto. }
+    assert (Hc0' : hd_byte (nkey c1) = Some c) by (eapply find_child_hd; eauto).
+    (* lifting a result below p' to p *)
+    assert (Lift : forall kids', inplace_res s1 s' p' co' fpsn2 kids' ->
+                   inplace_res s s' p po fpsP (set_nth kidsP j (Node kn rn kids'))).
+    { intros kids' IR.
+      apply (inplace_res_pre s s1 s' p po fpsP (set_nth fpsP j (p' :: n_arr co' :: List.concat fpsn2)) _ [n_arr po] Fr1).
+      - intros x [<-|[]]. simpl. auto.
+      - intros x Hx. destruct (in_concat_set_nth _ _ _ _ Hx) as [Hi|Hi]; auto.
+        destruct (SF1 x Hi) as [Hi'|Hi']; auto. left. eapply in_lconcat_nth; eauto.
+      - eapply ascend; eauto.
+        + eapply nth_set_nth_eq; eauto.
+        + eapply nth_set_nth_eq; eauto. }
+    assert (LiftId : inplace_res s1 s' p' co' fpsn2 kidsn -> inplace_res s s' p po fpsP kidsP).
+    { intros IR. pose proof (Lift _ IR) as L. rewrite (set_nth_same kidsP j _ Hj) in L. exact L. }
+    destruct brk.
+    + (* mismatch inside the edge: not found *)
+      destruct (Bt eq_refl) as [B1 B2].
+      unfold K_upd in H. simpl in H. mbind H mo s2 H2. apply get_node_ok in H2. destruct H2 as [-> _].
+      assert (Hrest' : rest' <> []).
+      { rewrite Er. intros E. apply skipn_nil_iff in E; auto. lia. }
+      destruct rest' as [|x rest'']; [congruence|]. simpl in H.
+      apply ret_ok in H. destruct H as [-> ->].
+      assert (E1 : Nat.eqb lcp (List.length (nkey c1)) = false) by (apply Nat.eqb_neq; lia).
+      rewrite E1. split; [exact MS1|]. split; auto.
+      apply LiftId. eapply inplace_res_refl; eauto.
+    + destruct rest' as [|x rest''].
+      * (* the path ends inside or at the end of this edge *)
+        assert (Em2 : m = List.length (c :: rest0)).
+        { symmetry in Er. apply skipn_nil_iff in Er; auto. }
+        destruct f as [|f']; [simpl in H; discriminate|]. simpl in H.
+        unfold bind at 1 in H. unfold ret at 1 in H.
+        match type of H with K_upd _ ?rr _ = _ =>
+          destruct (upd_base rt s1 p' co' cch kidsn fpsn2 i c1 nx c rr out s' G1 Hp' Hcch' Hkids' ND' Hc1 Hnx Hc0' Hfi eq_refl eq_refl H)
+            as (MS2 & Res)
+        end.
+        unfold is_exact in Res. simpl in Res.
+        assert (E2 : Nat.eqb lcp (List.length (c :: rest0)) = true) by (apply Nat.eqb_eq; lia).
+        rewrite E2. rewrite Em in Res.
+        split; [eapply meta_same_trans; eauto|].
+        destruct (Nat.eqb lcp (List.length (nkey c1))) eqn:E1; simpl in Res.
+        -- unfold is_leaf in Res. destruct (nroute c1) as [rold|]; simpl in Res.
+           ++ destruct Res as [-> IR]. split; auto. rewrite <- set_nth_replace. apply Lift. auto.
+           ++ destruct Res as [-> ->]. split; auto.
+              apply LiftId. eapply inplace_res_refl; eauto.
+        -- destruct Res as [-> ->]. split; auto.
+           apply LiftId. eapply inplace_res_refl; eauto.
+      * (* the whole edge matched and the path goes on *)
+        destruct (Bf eq_refl) as [B|B].
+        2:{ exfalso. assert (skipn m (c :: rest0) = []) by (apply skipn_nil_iff; auto). congruence. }
+        assert (E1 : Nat.eqb lcp (List.length (nkey c1)) = true) by (apply Nat.eqb_eq; lia).
+        assert (E2 : Nat.eqb lcp (List.length (c :: rest0)) = false).
+        { apply Nat.eqb_neq. intros E. assert (skipn m (c :: rest0) = []) by (apply skipn_nil_iff; auto; lia). congruence. }
+        rewrite E1, E2.
+        rewrite B in H.
+        destruct (IH s1 p' co' cch kidsn fpsn2 i nx c1 fc1 c (Some p) pp (x :: rest'') (c :: rest0) (cm + List.length (nkey c1))%nat (S depth) out s'
+                    G1 Hp' Hcch' Hkids' ND' Hc1 Hnx Hfc1' Hc0' Hfi ltac:(discriminate) H) as (MS2 & Res).
+        split; [eapply meta_same_trans; eauto|].
+        replace (skipn lcp (c :: rest0)) with (x :: rest'') by (rewrite Er, Em; auto).
+        destruct (upd f rt c1 (x :: rest'')) as [c'|].
+        -- destruct Res as [-> IR]. split; auto. rewrite <- set_nth_replace. apply Lift. auto.
+        -- destruct Res as [-> IR]. split; auto.
+Qed.
+
+End Sim.
+
+(* ---------- the roots level ---------- *)
+Lemma all3_skipn {A B C} (R : A -> B -> C -> Prop) k : forall la lb lc,
+  all3 R la lb lc -> all3 R (skipn k la) (skipn k lb) (skipn k lc).
+Proof.
+  induction k as [|k IH]; intros la lb lc H; simpl; auto.
+  destruct la, lb, lc; simpl in *; try tauto. apply IH. tauto.
+Qed.
+
+Lemma find_eq_key i m l : find_eq_from i m (map nkey l) = find_key_from i m l.
+Proof. revert i. induction l as [|x l IH]; intros i; simpl; auto. destruct (bytes_eqb (nkey x) m); auto. Qed.
+
+Lemma method_index_at_rep s ra rs roots fps m :
+  find_arr s ra = Some rs -> reps s rs roots fps ->
+  method_index_at ra m s = Ok (method_index roots m, s).
+Proof.
+  intros Hra Hr. unfold method_index_at, method_index.
+  destruct (bytes_eqb m m_get); [reflexivity|]. destruct (bytes_eqb m m_post); [reflexivity|].
+  destruct (bytes_eqb m m_put); [reflexivity|]. destruct (bytes_eqb m m_delete); [reflexivity|].
+  unfold bind, get_arr. unfold find_arr in Hra. rewrite Hra.
+  rewrite (keys_of_reps s (skipn 4 rs) (skipn 4 roots) (skipn 4 fps)).
+  - unfold ret. rewrite find_eq_key. reflexivity.
+  - apply all3_skipn. exact Hr.
+Qed.
+
+Lemma h_method_index_rep s rs roots fps m :
+  find_arr s (s_root s) = Some rs -> reps s rs roots fps ->
+  h_method_index m s = Ok (method_index roots m, s).
+Proof. intros. unfold h_method_index, bind, get_root. eapply method_index_at_rep; eauto. Qed.
+
+Definition roots_ok (rs : list node) : Prop :=
+  forall i r, nth_error rs i = Some r -> method_index rs (nkey r) = Some i.
+
+Section Roots.
+Variable evict : N -> list addr -> list addr.
+Hypothesis evict_sub : forall c w a, In a (evict c w) -> In a w.
+
+Definition relink_root (cur : addr) : M addr :=
+  hit <- w_get evict cur ;;
+  (if hit then ret cur
+   else cp <- clone cur ;; w_add_if_cache evict cp ;;; (update_root cp ;;; ret tt) ;;; ret cp).
+
+Lemma descend_root s rs roots fps i cur n fpn p' s1 :
+  good 1 s ->
+  find_arr s (s_root s) = Some rs -> reps s rs roots fps -> NoDup (List.concat fps) -> ~ In (s_root s) (List.concat fps) ->
+  nth_error roots i = Some n -> nth_error rs i = Some cur -> nth_error fps i = Some fpn ->
+  method_index roots (nkey n) = Some i ->
+  relink_root cur s = Ok (p', s1) ->
+  exists co co' cch fpsn,
+    find_node s cur = Some co /\ find_arr s (n_arr co) = Some cch /\ reps s cch (nchildren n) fpsn /\
+    fpn = cur :: n_arr co :: List.concat fpsn /\
+    find_node s1 p' = Some co' /\ n_key co' = nkey n /\ n_route co' = nroute n /\
+    find_arr s1 (n_arr co') = Some cch /\ reps s1 cch (nchildren n) fpsn /\
+    let fpn' := p' :: n_arr co' :: List.concat fpsn in
+    find_arr s1 (s_root s1) = Some (set_nth rs i p') /\
+    reps s1 (set_nth rs i p') roots (set_nth fps i fpn') /\
+    NoDup (List.concat (set_nth fps i fpn')) /\ ~ In (s_root s1) (List.concat (set_nth fps i fpn')) /\
+    (forall x, x < s_next s -> same_at s s1 x) /\ s_next s <= s_next s1 /\ sub_fresh s fpn fpn' /\
+    s_size s1 = s_size s /\ s_maxp s1 = s_maxp s /\ s_depth s1 = s_depth s /\ good 1 s1 /\
+    NoDup fpn' /\ ~ In (s_root s1) fpn' .
+Proof.
+  intros G Hrs Hr ND NR Hi Hcur Hfi MI H.
+  pose proof (good1_wf _ G) as Wf.
+  destruct (all3_nth _ _ _ _ _ _ Hr Hi) as (cur0 & fpn0 & Hc0 & Hf0 & Hrep).
+  assert (cur0 = cur) by congruence. assert (fpn0 = fpn) by congruence. subst cur0 fpn0.
+  destruct n as [kn rn kidsn]. simpl in *.
+  apply rep_unfold in Hrep. destruct Hrep as (co & cch & fpsn & Hco & Hk & Hrr & Hcch & Hkids & Hfp).
+  pose proof (NoDup_concat_nth _ _ _ ND Hfi) as NDf.
+  assert (Lall : Forall (V s) (List.concat fps)) by (eapply reps_lt; eauto). rewrite Forall_forall in Lall.
+  unfold relink_root in H. mbind H hit s2 H2.
+  destruct (w_get_eff _ _ _ _ _ H2) as (HS2 & MS2).
+  destruct (w_get_ok evict evict_sub 1 _ _ _ _ G H2) as (G2 & _ & _). clear H2.
+  assert (SA2 : forall x, same_at s s2 x) by (intros; apply heap_same_at; auto).
+  assert (Nx2 : s_next s2 = s_next s) by (destruct HS2 as (_ & _ & ->); auto).
+  destruct MS2 as (R2 & Z2 & P2 & D2 & C2).
+  destruct hit.
+  - apply ret_ok in H. destruct H as [-> ->].
+    exists co, co, cch, fpsn.
+    rewrite (set_nth_same rs i cur) by auto. rewrite <- Hfp. rewrite (set_nth_same fps i fpn) by auto.
+    assert (A1 : find_node s2 cur = Some co) by (rewrite (proj1 (SA2 cur)); auto).
+    assert (A2 : find_arr s2 (n_arr co) = Some cch) by (rewrite (proj2 (SA2 _)); auto).
+    assert (A3 : reps s2 cch kidsn fpsn) by (eapply reps_frame; eauto).
+    assert (A4 : find_arr s2 (s_root s2) = Some rs) by (rewrite R2, (proj2 (SA2 _)); auto).
+    assert (A5 : reps s2 rs roots fps) by (eapply reps_frame; eauto).
+    assert (A6 : ~ In (s_root s2) (List.concat fps)) by (rewrite R2; auto).
+    assert (A7 : sub_fresh s fpn fpn) by (intros x Hx; auto).
+    assert (A8 : ~ In (s_root s2) fpn) by (intros Hx; apply A6; eapply in_lconcat_nth; eauto).
+    pose proof A8 as A8'. rewrite Hfp in A8'. pose proof NDf as NDf'. rewrite Hfp in NDf'.
+    spl; auto; try lia.
+  - mbind H cp s3 H3. unfold clone in H3.
+    mbind H3 co2 s4 H4. apply get_node_ok in H4. destruct H4 as [-> Hco2]. rewrite (proj1 (SA2 cur)) in Hco2.
+    assert (co2 = co) by congruence. subst co2.
+    mbind H3 cch2 s4 H4. apply get_arr_ok in H4. destruct H4 as [-> Hcch2]. rewrite (proj2 (SA2 _)) in Hcch2.
+    assert (cch2 = cch) by congruence. subst cch2.
+    mbind H3 A' s4 H4.
+    pose proof (proj2 (wf_arr _ Wf _ _ Hcch)) as Fcch.
+    assert (Fcch2 : Forall (V s2) cch).
+    { eapply Forall_impl; [|exact Fcch]. unfold V. rewrite Nx2. auto. }
+    destruct (alloc_arr_ok 1 _ _ _ _ G2 Fcch2 H4) as (G4 & _ & V4 & _ & _).
+    destruct (alloc_arr_eff _ _ _ _ H4) as (EA & N4 & FA & OA & ON4 & MS4). clear H4.
+    pose proof (fun pf => alloc_node_ok 1 _ _ _ _ G4 pf H3) as X. simpl in X.
+    destruct (X V4) as (G5 & _ & V5 & _ & _). clear X.
+    destruct (alloc_node_eff _ _ _ _ H3) as (EC & N5 & FC & OC & OA5 & MS5). clear H3.
+    mbind H u s6 H6. destruct (w_add_if_cache_eff _ _ _ _ _ H6) as (HS6 & MS6).
+    assert (O5 : own 1 s3 cp) by (split; [lia|]; eexists; split; [exact FC|]; simpl; lia).
+    destruct (w_add_if_cache_ok evict evict_sub 1 _ _ _ _ G5 O5 H6) as (G6 & _). clear H6.
+    assert (N6 : s_next s6 = s_next s3) by (destruct HS6 as (_ & _ & ->); auto).
+    mbind H u2 s7 H7. apply ret_ok in H. destruct H as [-> <-].
+    mbind H7 b s8 H8. apply ret_ok in H7. destruct H7 as [_ <-].
+    assert (Vcp6 : V s6 cp) by (unfold V in *; lia).
+    destruct (update_root_ok 1 _ _ _ _ G6 Vcp6 H8) as (G8 & _).
+    (* state s6: old heap + the clone *)
+    assert (Old6 : forall x, x < s_next s -> same_at s s6 x).
+    { intros x Lx. eapply same_at_trans; [apply SA2|]. eapply same_at_trans; [|apply heap_same_at; exact HS6].
+      split; [rewrite OC by lia; apply ON4|rewrite OA5; apply OA; lia]. }
+    assert (FC6 : find_node s6 cp = Some {| n_key := n_key co; n_route := n_route co; n_arr := A' |})
+      by (rewrite (proj1 (heap_same_at _ _ cp HS6)); auto).
+    assert (FA6 : find_arr s6 A' = Some cch) by (rewrite (proj2 (heap_same_at _ _ A' HS6)), OA5; auto).
+    destruct MS4 as (R4 & Z4 & P4 & D4 & _). destruct MS5 as (R5 & Z5 & P5 & D5 & _). destruct MS6 as (R6 & Z6 & P6 & D6 & _).
+    assert (Rt6 : s_root s6 = s_root s) by congruence.
+    destruct (wf_arr _ Wf _ _ Hrs) as [VR Frs].
+    assert (Hrs6 : find_arr s6 (s_root s6) = Some rs).
+    { rewrite Rt6. rewrite (proj2 (Old6 _ VR)). auto. }
+    assert (Hr6 : reps s6 rs roots fps).
+    { eapply reps_frame; eauto. intros x Hx. apply Old6. apply Lall. auto. }
+    (* update_root cp *)
+    unfold update_root in H8.
+    mbind H8 kk s9 H9. unfold key_of in H9. mbind H9 o9 s10 H10. apply get_node_ok in H10. destruct H10 as [-> Ho9].
+    apply ret_ok in H9. destruct H9 as [-> ->]. rewrite FC6 in Ho9. inversion Ho9; subst o9; clear Ho9. simpl in H8.
+    mbind H8 idx s9 H9. rewrite (h_method_index_rep _ _ _ _ _ Hrs6 Hr6) in H9. inversion H9; subst idx s9; clear H9.
+    rewrite Hk, MI in H8.
+    mbind H8 rs' s9 H9. unfold get_roots, bind, get_root, get_arr in H9. unfold find_arr in Hrs6. rewrite Hrs6 in H9.
+    inversion H9; subst rs' s9; clear H9. fold (find_arr s6 (s_root s6)) in Hrs6.
+    destruct (Nat.ltb i (List.length rs)); [|discriminate].
+    mbind H8 AR s9 H9.
+    destruct (alloc_arr_eff _ _ _ _ H9) as (EAR & N9 & FAR & OAR & ON9 & MS9). clear H9.
+    mbind H8 u3 s10 H10. apply ret_ok in H8. destruct H8 as [_ <-].
+    destruct (set_root_eff _ _ _ _ H10) as (HS10 & R10 & Z10 & P10 & D10 & C10). clear H10.
+    assert (N10 : s_next s1 = s_next s9) by (destruct HS10 as (_ & _ & ->); auto).
+    assert (Old10 : forall x, x < s_next s -> same_at s s1 x).
+    { intros x Lx. eapply same_at_trans; [apply Old6; auto|]. eapply same_at_trans; [|apply heap_same_at; exact HS10].
+      split; [apply ON9|apply OAR; lia]. }
+    assert (B1 : find_node s1 cp = Some {| n_key := n_key co; n_route := n_route co; n_arr := A' |}).
+    { rewrite (proj1 (heap_same_at _ _ cp HS10)), ON9. auto. }
+    assert (B2 : find_arr s1 A' = Some cch).
+    { rewrite (proj2 (heap_same_at _ _ A' HS10)), OAR by lia. auto. }
+    assert (B3 : reps s1 cch kidsn fpsn).
+    { eapply reps_frame; eauto. intros x Hx. apply Old10. apply Lall. eapply in_lconcat_nth; eauto. rewrite Hfp. simpl. auto. }
+    assert (B4 : find_arr s1 (s_root s1) = Some (set_nth rs i cp)).
+    { rewrite R10. rewrite (proj2 (heap_same_at _ _ AR HS10)). auto. }
+    exists co, {| n_key := n_key co; n_route := n_route co; n_arr := A' |}, cch, fpsn. simpl.
+    assert (B5 : reps s1 (set_nth rs i cp) roots (set_nth fps i (cp :: A' :: List.concat fpsn))).
+    { rewrite <- (set_nth_same roots i _ Hi). apply all3_set.
+      - apply (reps_frame s s1 _ _ _ Hr). intros x Hx. apply Old10. apply Lall. auto.
+      - apply rep_unfold. eexists _, cch, fpsn. spl; eauto. }
+    assert (Lk : forall x, In x (List.concat fpsn) -> x < s_next s).
+    { intros x Hx. apply Lall. eapply in_lconcat_nth; eauto. rewrite Hfp. simpl. auto. }
+    assert (B6' : NoDup (cp :: A' :: List.concat fpsn)).
+    { rewrite Hfp in NDf. inversion NDf as [|? ? H1 T]; inversion T as [|? ? H2 T'].
+      constructor; [|constructor; auto].
+      + intros [Hx|Hx]; [lia|]. apply Lk in Hx. lia.
+      + intros Hx. apply Lk in Hx. lia. }
+    assert (B6 : NoDup (List.concat (set_nth fps i (cp :: A' :: List.concat fpsn)))).
+    { eapply NoDup_concat_set_nth; eauto.
+      intros x [<-|[<-|Hx]].
+      + right. intros Hx. apply Lall in Hx. unfold V in Hx. lia.
+      + right. intros Hx. apply Lall in Hx. unfold V in Hx. lia.
+      + left. rewrite Hfp. simpl. auto. }
+    assert (Sub : forall x, In x (List.concat (set_nth fps i (cp :: A' :: List.concat fpsn))) -> x < AR).
+    { intros x Hx. destruct (in_concat_set_nth _ _ _ _ Hx) as [[<-|[<-|Hx']]|Hx']; try lia.
+      - apply Lk in Hx'. lia.
+      - apply Lall in Hx'. unfold V in Hx'. lia. }
+    assert (B7 : ~ In (s_root s1) (List.concat (set_nth fps i (cp :: A' :: List.concat fpsn)))).
+    { rewrite R10. intros Hx. apply Sub in Hx. lia. }
+    assert (B8 : sub_fresh s fpn (cp :: A' :: List.concat fpsn)).
+    { intros x [<-|[<-|Hx]]; try (right; lia). left. rewrite Hfp. simpl. auto. }
+    assert (B9 : ~ In (s_root s1) (cp :: A' :: List.concat fpsn)).
+    { rewrite R10. intros [Hx|[Hx|Hx]]; try lia. apply Lk in Hx. lia. }
+    destruct MS9 as (_ & Z9 & P9 & D9 & _).
+    spl; auto; try lia; try congruence.
+Qed.
+
+End Roots.
+
+Definition trep (s : st) (T : txn) : Prop :=
+  exists rs fps, find_arr s (s_root s) = Some rs /\ reps s rs (t_roots T) fps /\
+                 NoDup (List.concat fps) /\ ~ In (s_root s) (List.concat fps) /\
+                 s_size s = t_size T /\ s_maxp s = t_maxparams T /\ s_depth s = t_depth T.
+
+Lemma ascend_root s1 s' rs1 roots fps1 i p' co' fpsn kn rn kidsn kids' :
+  good 1 s1 ->
+  find_arr s1 (s_root s1) = Some rs1 -> reps s1 rs1 roots fps1 -> NoDup (List.concat fps1) ->
+  ~ In (s_root s1) (List.concat fps1) ->
+  nth_error rs1 i = Some p' -> nth_error roots i = Some (Node kn rn kidsn) ->
+  nth_error fps1 i = Some (p' :: n_arr co' :: List.concat fpsn) ->
+  n_key co' = kn -> n_route co' = rn ->
+  inplace_res s1 s' p' co' fpsn kids' ->
+  find_arr s' (s_root s1) = Some rs1 /\
+  exists fps', reps s' rs1 (set_nth roots i (Node kn rn kids')) fps' /\ NoDup (List.concat fps') /\
+               ~ In (s_root s1) (List.concat fps') /\ good 1 s'.
+Proof.
+  intros G Hrs Hr ND NR Hp' Hi Hfi Hk Hrr (ch' & fps' & Hco' & Hch' & Hkids' & ND' & SF & Fr & G').
+  pose proof (good1_wf _ G) as Wf.
+  assert (Lall : Forall (V s1) (List.concat fps1)) by (eapply reps_lt; eauto). rewrite Forall_forall in Lall.
+  destruct (wf_arr _ Wf _ _ Hrs) as [VR _].
+  set (fold := p' :: n_arr co' :: List.concat fpsn) in *.
+  set (fnew := p' :: n_arr co' :: List.concat fps').
+  assert (InOld : forall x, In x fold -> In x (List.concat fps1)) by (intros x Hx; eapply in_lconcat_nth; eauto).
+  assert (Sub : forall x, In x fnew -> In x fold \/ s_next s1 <= x).
+  { intros x [<-|[<-|Hx]]; [left; simpl; auto|left; simpl; auto|].
+    destruct (SF x Hx); [left; simpl; auto|auto]. }
+  assert (Wsub : forall x, In x (n_arr co' :: List.concat fpsn) -> In x fold) by (intros x Hx; simpl; auto).
+  split.
+  { rewrite (proj2 (frame_old _ _ _ (s_root s1) Fr VR ltac:(intros Hx; apply NR; apply InOld; apply Wsub; auto))). auto. }
+  exists (set_nth fps1 i fnew).
+  assert (Sub2 : forall x, In x (List.concat (set_nth fps1 i fnew)) -> In x (List.concat fps1) \/ s_next s1 <= x).
+  { intros x Hx. destruct (in_concat_set_nth _ _ _ _ Hx) as [Hx'|Hx']; auto. destruct (Sub x Hx'); auto. }
+  spl; auto.
+  - rewrite <- (set_nth_same rs1 i p' Hp'). eapply all3_set_frame; [exact Hr| |].
+    + intros k x y z Hne Hx Hy Hz Hrep. eapply rep_frame'; eauto.
+      intros a Ha Hin. apply Wsub in Hin.
+      exact (NoDup_concat_disj _ _ _ _ _ _ ND Hne Hz Hfi Ha Hin).
+    + apply rep_unfold. exists co', ch', fps'. spl; auto.
+  - apply (NoDup_concat_set_nth fps1 i fold fnew ND Hfi).
+    + exact ND'.
+    + intros x Hx. destruct (Sub x Hx); auto. right. intros Hin. apply Lall in Hin. unfold V in Hin. lia.
+  - intros Hx. destruct (Sub2 _ Hx) as [Hx'|Hx']; auto. unfold V in VR. lia.
+Qed.
+
+Section Upd.
+Variable evict : N -> list addr -> list addr.
+Hypothesis evict_sub : forall c w a, In a (evict c w) -> In a w.
+
+Lemma cow_loop_unfold_root fuel cur c rest0 from cm cmin depth {A} (K : sres -> M A) s :
+  (r <- cow_loop evict (S fuel) cur None None None (c :: rest0) from cm cmin depth ;; K r) s =
+  match get_edge cur c s with
+  | Ok (None, s0) => K {| r_matched := cur; r_p := None; r_pp := None; r_ppp := None; r_rest := c :: rest0; r_from := from;
+                          r_cm := cm; r_cmin := cmin; r_depth := depth |} s0
+  | Ok (Some nx, s0) =>
+      match relink_root evict cur s0 with
+      | Ok (p', s1) =>
+          match key_of nx s1 with
+          | Ok (key, s2) =>
+              let '(n, rest', brk) := match_key key (c :: rest0) in
+              if brk then K {| r_matched := nx; r_p := Some p'; r_pp := None; r_ppp := None; r_rest := rest'; r_from := c :: rest0;
+                               r_cm := cm + n; r_cmin := n; r_depth := S depth |} s2
+              else (r <- cow_loop evict fuel nx (Some p') None None rest' (c :: rest0) (cm + n) n (S depth) ;; K r) s2
+          | Panic => Panic | Oof => Oof
+          end
+      | Panic => Panic | Oof => Oof
+      end
+  | Panic => Panic | Oof => Oof
+  end.
+Proof.
+  simpl. unfold relink_root, bind, ret.
+  destruct (get_edge cur c s) as [[[nx|] s0]| |]; auto.
+  destruct (w_get evict cur s0) as [[hit s1]| |]; auto.
+  destruct hit.
+  - destruct (key_of nx s1) as [[key s2]| |]; auto.
+    destruct (match_key key (c :: rest0)) as [[n rest'] brk]. destruct brk; auto.
+  - destruct (clone cur s1) as [[cp s2]| |]; auto.
+    destruct (w_add_if_cache evict cp s2) as [[u s3]| |]; auto.
+    destruct (update_root cp s3) as [[u2 s4]| |]; auto.
+    destruct (key_of nx s4) as [[key s5]| |]; auto.
+    destruct (match_key key (c :: rest0)) as [[n rest'] brk]. destruct brk; auto.
+Qed.
+
+Definition upd_child (f : nat) (rt : route) (c1 : node) (rest : bytes) : option node :=
+  let lcp := List.length (common_prefix rest (nkey c1)) in
+  if Nat.eqb lcp (List.length (nkey c1)) then
+    if Nat.eqb lcp (List.length rest) then
+      match nroute c1 with Some _ => Some (Node (nkey c1) (Some rt) (nchildren c1)) | None => None end
+    else upd f rt c1 (skipn lcp rest)
+  else None.
+
+Lemma upd_step f rt k r kids c rest0 :
+  upd (S f) rt (Node k r kids) (c :: rest0) =
+  match find_child_from 0 c kids with
+  | None => None
+  | Some i => match nth_error kids i with
+              | None => None
+              | Some c1 => option_map (fun c' => Node k r (replace_nth kids i c')) (upd_child f rt c1 (c :: rest0))
+              end
+  end.
+Proof.
+  cbn [upd]. unfold find_child, upd_child. cbn [nchildren nkey nroute].
+  destruct (find_child_from 0 c kids) as [i|]; auto.
+  destruct (nth_error kids i) as [c1|]; auto.
+  destruct (Nat.eqb _ (List.length (nkey c1))); auto.
+  destruct (Nat.eqb _ (List.length (c :: rest0))).
+  - destruct (nroute c1); auto.
+  - destruct (upd f rt c1 _); auto.
+Qed.
+
+(* the part of an iteration after the clone-or-reuse block, below an in-place node p' *)
+Lemma upd_below rt f s1 p' co' cch kidsn fpsn i nx c1 fc1 c rest0 pp' ppp' cm depth out s' :
+  good 1 s1 -> find_node s1 p' = Some co' -> find_arr s1 (n_arr co') = Some cch -> reps s1 cch kidsn fpsn ->
+  NoDup (p' :: n_arr co' :: List.concat fpsn) ->
+  nth_error kidsn i = Some c1 -> nth_error cch i = Some nx -> nth_error fpsn i = Some fc1 ->
+  find_child_from 0 c kidsn = Some i ->
+  match key_of nx s1 with
+  | Ok (key, s2) =>
+      let '(n, rest', brk) := match_key key (c :: rest0) in
+      if brk then K_upd rt {| r_matched := nx; r_p := Some p'; r_pp := pp'; r_ppp := ppp'; r_rest := rest'; r_from := c :: rest0;
+                              r_cm := cm + n; r_cmin := n; r_depth := S depth |} s2
+      else (r <- cow_loop evict f nx (Some p') pp' ppp' rest' (c :: rest0) (cm + n) n (S depth) ;; K_upd rt r) s2
+  | Panic => Panic | Oof => Oof
+  end = Ok (out, s') ->
+  meta_same s1 s' /\
+  match upd_child f rt c1 (c :: rest0) with
+  | Some c' => out = true /\ inplace_res s1 s' p' co' fpsn (set_nth kidsn i c')
+  | None => out = false /\ inplace_res s1 s' p' co' fpsn kidsn
+  end.
+Proof.
+  intros G1 Hp' Hcch' Hkids' ND' Hc1 Hnx Hfc1' Hfi H.
+  destruct (all3_nth _ _ _ _ _ _ Hkids' Hc1) as (nx1 & fc1' & Hnx1 & Hfc1'' & Hrepc1).
+  assert (nx1 = nx) by congruence. subst nx1. assert (fc1' = fc1) by congruence. subst fc1'.
+  destruct (rep_key _ _ _ _ Hrepc1) as (nxo & Hnxo & Knx & Rnx).
+  assert (KO : key_of nx s1 = Ok (nkey c1, s1)).
+  { unfold key_of, bind, get_node. unfold find_node in Hnxo. rewrite Hnxo. unfold ret. rewrite Knx. auto. }
+  rewrite KO in H.
+  destruct (match_key (nkey c1) (c :: rest0)) as [[m rest'] brk] eqn:MK.
+  destruct (match_key_spec _ _ _ _ _ MK) as (Em & Er & Lm1 & Lm2 & Bt & Bf).
+  unfold upd_child.
+  set (lcp := List.length (common_prefix (c :: rest0) (nkey c1))) in *. cbv zeta.
+  assert (Hc0' : hd_byte (nkey c1) = Some c) by (eapply find_child_hd; eauto).
+  assert (Same : inplace_res s1 s1 p' co' fpsn kidsn) by (eapply inplace_res_refl; eauto).
+  destruct brk.
+  - destruct (Bt eq_refl) as [B1 B2].
+    unfold K_upd in H. simpl in H. mbind H mo s2 H2. apply get_node_ok in H2. destruct H2 as [-> _].
+    assert (Hrest' : rest' <> []).
+    { rewrite Er. intros E. apply skipn_nil_iff in E; auto. lia. }
+    destruct rest' as [|x rest'']; [congruence|]. simpl in H.
+    apply ret_ok in H. destruct H as [-> ->].
+    assert (E1 : Nat.eqb lcp (List.length (nkey c1)) = false) by (apply Nat.eqb_neq; lia).
+    rewrite E1. split; [apply meta_same_refl|]. split; auto.
+  - destruct rest' as [|x rest''].
+    + assert (Em2 : m = List.length (c :: rest0)).
+      { symmetry in Er. apply skipn_nil_iff in Er; auto. }
+      destruct f as [|f']; [simpl in H; discriminate|]. simpl in H.
+      unfold bind at 1 in H. unfold ret at 1 in H.
+      match type of H with K_upd _ ?rr _ = _ =>
+        destruct (upd_base rt s1 p' co' cch kidsn fpsn i c1 nx c rr out s' G1 Hp' Hcch' Hkids' ND' Hc1 Hnx Hc0' Hfi eq_refl eq_refl H)
+          as (MS2 & Res)
+      end.
+      unfold is_exact in Res. simpl in Res.
+      assert (E2 : Nat.eqb lcp (List.length (c :: rest0)) = true) by (apply Nat.eqb_eq; lia).
+      rewrite E2. rewrite Em in Res. split; auto.
+      destruct (Nat.eqb lcp (List.length (nkey c1))) eqn:E1; simpl in Res.
+      * unfold is_leaf in Res. destruct (nroute c1) as [rold|]; simpl in Res.
+        -- destruct Res as [-> IR]. split; auto.
+        -- destruct Res as [-> ->]. split; auto.
+      * destruct Res as [-> ->]. split; auto.
+    + destruct (Bf eq_refl) as [B|B].
+      2:{ exfalso. assert (skipn m (c :: rest0) = []) by (apply skipn_nil_iff; auto). congruence. }
+      assert (E1 : Nat.eqb lcp (List.length (nkey c1)) = true) by (apply Nat.eqb_eq; lia).
+      assert (E2 : Nat.eqb lcp (List.length (c :: rest0)) = false).
+      { apply Nat.eqb_neq. intros E. assert (skipn m (c :: rest0) = []) by (apply skipn_nil_iff; auto; lia). congruence. }
+      rewrite E1, E2. rewrite B in H.
+      destruct (upd_sim evict evict_sub rt f s1 p' co' cch kidsn fpsn i nx c1 fc1 c pp' ppp' (x :: rest'') (c :: rest0)
+                  (cm + List.length (nkey c1))%nat (S depth) out s'
+                  G1 Hp' Hcch' Hkids' ND' Hc1 Hnx Hfc1' Hc0' Hfi ltac:(discriminate) H) as (MS2 & Res).
+      split; auto.
+      replace (skipn lcp (c :: rest0)) with (x :: rest'') by (rewrite Er, Em; auto).
+      exact Res.
+Qed.
+
+Theorem h_update_refines m ri s T b s' :
+  good 1 s -> trep s T -> roots_ok (t_roots T) ->
+  h_update evict m ri s = Ok (b, s') ->
+  match update T m ri with
+  | ROk T' => b = true /\ trep s' T'
+  | _ => b = false /\ trep s' T
+  end.
+Proof.
+  intros G (rs & fps & Hrs & Hr & ND & NR & Zs & Ps & Ds) RO H.
+  assert (TR : trep s T) by (exists rs, fps; spl; auto).
+  unfold h_update in H. unfold update.
+  mbind H idx s0 H0. rewrite (h_method_index_rep _ _ _ _ _ Hrs Hr) in H0. inversion H0; subst idx s0; clear H0.
+  destruct (method_index (t_roots T) m) as [i|] eqn:MI.
+  2:{ apply ret_ok in H. destruct H as [-> ->]. auto. }
+  mbind H rs' s0 H0. unfold get_roots, bind, get_root, get_arr in H0. unfold find_arr in Hrs. rewrite Hrs in H0.
+  inversion H0; subst rs' s0; clear H0. fold (find_arr s (s_root s)) in Hrs.
+  mbind H rn s0 H0. apply opt_get_ok in H0. destruct H0 as [Hrn ->].
+  destruct (all3_nth_a _ _ _ _ _ _ Hr Hrn) as (root & fpr & Hroot & Hfpr & Hrep).
+  rewrite Hroot. unfold cow_search in H.
+  set (rt := ri_route ri) in *. set (path := rpat rt) in *.
+  change (fun r => mo <- get_node (r_matched r);; _) with (K_upd rt) in H.
+  destruct root as [kr rr kidsr].
+  destruct path as [|c rest0] eqn:Epath.
+  - (* empty pattern *)
+    simpl in H. unfold bind at 1 in H. unfold ret at 1 in H. unfold K_upd in H. simpl in H.
+    mbind H mo s0 H0. apply get_node_ok in H0. destruct H0 as [-> Hmo].
+    unfold is_exact in H. cbn [r_rest r_cmin] in H.
+    destruct (Nat.eqb 0 (List.length (n_key mo))); [destruct (n_route mo)|];
+      try (apply ret_ok in H; destruct H as [-> ->]; simpl; auto).
+    mbind H x s0 H0. mbind H q s1 H1. simpl in H1. discriminate.
+  - rewrite cow_loop_unfold_root in H.
+    destruct (get_edge_rep _ _ _ _ _ _ c Hrep) as (co & cch & fpsn & Hco & Hcch & Hkids & GE).
+    rewrite GE in H. simpl List.length. rewrite upd_step. unfold find_child in *. cbn [nchildren nkey nroute] in *.
+    destruct (find_child_from 0 c kidsr) as [i'|] eqn:Hfi.
+    2:{ unfold K_upd in H. simpl in H. mbind H mo s2 H2. apply get_node_ok in H2. destruct H2 as [-> _].
+        apply ret_ok in H. destruct H as [-> ->]. auto. }
+    destruct (nth_error cch i') as [nx|] eqn:Hnx.
+    2:{ destruct (nth_error kidsr i') as [cc|] eqn:Hcc.
+        - destruct (all3_nth _ _ _ _ _ _ Hkids Hcc) as (? & ? & Hx & _). congruence.
+        - unfold K_upd in H. simpl in H. mbind H mo s2 H2. apply get_node_ok in H2. destruct H2 as [-> _].
+          apply ret_ok in H. destruct H as [-> ->]. auto. }
+    destruct (all3_nth_a _ _ _ _ _ _ Hkids Hnx) as (c1 & fc & Hc1 & Hfc1 & Hrepc).
+    rewrite Hc1.
+    destruct (relink_root evict rn s) as [[p' s1]| |] eqn:RL; try discriminate.
+    destruct (descend_root evict evict_sub s rs (t_roots T) fps i rn (Node kr rr kidsr) fpr p' s1
+                G Hrs Hr ND NR Hroot Hrn Hfpr (RO _ _ Hroot) RL)
+      as (co2 & co' & cch2 & fpsn2 & Hco2 & Hcch2 & Hkids2 & Hfpn & Hp' & Hk' & Hr' & Hcch' & Hkids' & Hrs1 & Hr1 & ND1 & NR1 & Old1 & Nx1 & SF1 & Z1 & P1 & D1 & G1 & NDp' & NRp').
+    assert (co2 = co) by congruence. subst co2. assert (cch2 = cch) by congruence. subst cch2.
+    cbn [nchildren nkey nroute] in *.
+    destruct (all3_nth _ _ _ _ _ _ Hkids' Hc1) as (nx1 & fc1 & Hnx1 & Hfc1' & Hrepc1).
+    assert (nx1 = nx) by congruence. subst nx1.
+    destruct (upd_below rt _ s1 p' co' cch kidsr fpsn2 i' nx c1 fc1 c rest0 None None 0%nat 0%nat b s'
+                G1 Hp' Hcch' Hkids' NDp' Hc1 Hnx Hfc1' Hfi H) as (MS & Res).
+    simpl List.length in *.
+    destruct MS as (Rt' & Z' & P' & D' & _).
+    assert (Fin : forall kids', inplace_res s1 s' p' co' fpsn2 kids' ->
+                  trep s' {| t_roots := replace_nth (t_roots T) i (Node kr rr kids'); t_size := t_size T;
+                             t_maxparams := t_maxparams T; t_depth := t_depth T |}).
+    { intros kids' IR.
+      destruct (ascend_root s1 s' _ _ _ i p' co' fpsn2 kr rr kidsr kids' G1 Hrs1 Hr1 ND1 NR1
+                  ltac:(eapply nth_set_nth_eq; eauto) Hroot ltac:(eapply nth_set_nth_eq; eauto) Hk' Hr' IR)
+        as (Hrs' & fps' & Hr'' & ND'' & NR'' & G').
+      exists (set_nth rs i p'), fps'. rewrite Rt'. simpl. rewrite <- set_nth_replace. spl; auto; congruence. }
+    destruct (upd_child (S (List.length rest0)) rt c1 (c :: rest0)) as [c'|]; simpl.
+    + destruct Res as [-> IR]. split; auto.
+      rewrite <- (set_nth_replace kidsr i' c'). apply Fin. auto.
+    + destruct Res as [-> IR]. split; auto.
+      pose proof (Fin _ IR) as F. rewrite <- set_nth_replace in F. rewrite (set_nth_same _ _ _ Hroot) in F.
+      destruct T; exact F.
+Qed.
+
+End Upd.
